@@ -141,4 +141,1900 @@ theorem validateRange_none {l : Rga} {pos num : Int} (h : l.validateRange pos nu
         simp only [Bool.or_eq_true, decide_eq_true_eq, not_or] at h3
         omega
 
+
+/-- what a call on a list returns without executing anything is never a panic -/
+theorem prepare_list_done {l : Rga} {c : Call} {o : Outcome Ret} (h : c.prepare (.list l) = .done o) :
+    o.isPanic = false := by
+  cases c <;> simp only [Call.prepare] at h
+  all_goals (try split at h) <;> (try split at h) <;>
+    first
+      | (cases h; done)
+      | (simp only [Prep.done.injEq] at h; subst h; rfl)
+
+theorem anchorAt_some (l : Rga) (p : Nat) (h : (p : Int) ≤ liveCount l.nodes) : ∃ a, l.anchorAt p = some a := by
+  unfold Rga.anchorAt
+  by_cases hp : p = 0
+  · simp [hp]
+  · simp only [hp, if_false]
+    obtain ⟨x, hx⟩ := nthLive_some l.nodes (p - 1) (by omega)
+    exact ⟨_, by rw [hx]; rfl⟩
+
+/-- **a validated local list operation never panics** when the stored Size is the number of live elements -/
+theorem execLocal_prepared_no_panic {l : Rga} (hsz : l.size = liveCount l.nodes) {c : Call} {b : OpBody}
+    {post : Ret → Ret} (h : c.prepare (.list l) = .op b post) (ts : Ts) (w : String) :
+    execLocal (.list l) ts b ≠ .panic w := by
+  cases c with
+  | linsert pos vs =>
+    simp only [Call.prepare] at h
+    cases hv : l.validateInsert pos with
+    | some c => rw [hv] at h; cases h
+    | none =>
+      rw [hv] at h
+      simp only at h
+      split at h
+      · cases h
+      · simp only [Prep.op.injEq] at h
+        obtain ⟨rfl, _⟩ := h
+        obtain ⟨h0, h1⟩ := validateInsert_none hv
+        obtain ⟨a, ha⟩ := anchorAt_some l pos.toNat (by omega)
+        obtain ⟨l', hl'⟩ := insertAtLive_some (mkNodes ts vs) pos.toNat l.nodes (by omega)
+        simp [execLocal, Rga.insertLocal, ha, hl']
+  | ldelete pos =>
+    simp only [Call.prepare] at h
+    cases hv : l.validateRange pos 1 with
+    | some c => rw [hv] at h; cases h
+    | none =>
+      rw [hv] at h
+      simp only [Prep.op.injEq] at h
+      obtain ⟨rfl, _⟩ := h
+      obtain ⟨h0, h1, h2⟩ := validateRange_none hv
+      obtain ⟨res, hr⟩ := mapLiveFrom_some (fun x t => { x with v := none, t := t }) l.nodes pos.toNat
+        (delimSeq ts 1) (by rw [delimSeq_length]; omega)
+      simp [execLocal, Rga.deleteLocal, hr]
+  | ldeleteMany pos n =>
+    simp only [Call.prepare] at h
+    cases hv : l.validateRange pos n with
+    | some c => rw [hv] at h; cases h
+    | none =>
+      rw [hv] at h
+      simp only [Prep.op.injEq] at h
+      obtain ⟨rfl, _⟩ := h
+      obtain ⟨h0, h1, h2⟩ := validateRange_none hv
+      obtain ⟨res, hr⟩ := mapLiveFrom_some (fun x t => { x with v := none, t := t }) l.nodes pos.toNat
+        (delimSeq ts n.toNat) (by rw [delimSeq_length]; omega)
+      simp [execLocal, Rga.deleteLocal, hr]
+  | lupdate pos vs =>
+    simp only [Call.prepare] at h
+    cases hv : l.validateRange pos vs.length with
+    | some c => rw [hv] at h; cases h
+    | none =>
+      rw [hv] at h
+      simp only at h
+      split at h
+      · cases h
+      · simp only [Prep.op.injEq] at h
+        obtain ⟨rfl, _⟩ := h
+        obtain ⟨h0, h1, h2⟩ := validateRange_none hv
+        obtain ⟨res, hr⟩ := updGo_some l.nodes pos.toNat ((delimSeq ts vs.length).zip vs)
+          (by rw [List.length_zip, delimSeq_length]; simp; omega)
+        simp [execLocal, Rga.updateLocal, hr]
+  | inc d =>
+    simp only [Call.prepare, Prep.op.injEq] at h
+    obtain ⟨rfl, _⟩ := h
+    simp [execLocal]
+  | mput k v =>
+    simp only [Call.prepare] at h
+    split at h
+    · cases h
+    · simp only [Prep.op.injEq] at h
+      obtain ⟨rfl, _⟩ := h
+      simp [execLocal]
+  | mremove k =>
+    simp only [Call.prepare] at h
+    split at h
+    · cases h
+    · simp only [Prep.op.injEq] at h
+      obtain ⟨rfl, _⟩ := h
+      simp [execLocal]
+  | _ => simp only [Call.prepare] at h; first | cases h | (split at h <;> cases h)
+
+/-! ### remote executions -/
+
+theorem updateRemote_go_some : ∀ (tgs : List Ts) (vs : List JVal) (t : Ts) (l : List RNode),
+    tgs.length ≤ vs.length → ∃ l', Rga.updateRemote.go tgs vs t l = some l'
+  | [], vs, t, l, _ => ⟨l, by unfold Rga.updateRemote.go; rfl⟩
+  | tg :: tgs, [], t, l, h => by simp at h
+  | tg :: tgs, v :: vs, t, l, h => by
+    unfold Rga.updateRemote.go
+    exact updateRemote_go_some tgs vs _ _ (by simpa using h)
+
+/-- the wire bodies whose remote execution on a list cannot panic: no insert without anchor, no update with fewer
+    values than targets (transaction headers and every other body included) -/
+def RemoteSafe (b : OpBody) : Prop :=
+  (∀ p vs, b ≠ .insert p none vs) ∧ (∀ p tg vs, b = .update p tg vs → tg.length ≤ vs.length)
+
+theorem execRemote_list_safe (l : Rga) (ts : Ts) (b : OpBody) (h : RemoteSafe b) :
+    ∃ l', execRemote (.list l) ts b = .ok (.list l') := by
+  cases b with
+  | snapshot s => cases s <;> exact ⟨_, rfl⟩
+  | insert p t vs =>
+    cases t with
+    | none => exact absurd rfl (h.1 p vs)
+    | some a =>
+      simp only [execRemote]
+      unfold Rga.insertRemote
+      cases insertAfterId RNode.o a (mkNodes ts vs) l.nodes <;> exact ⟨_, rfl⟩
+  | update p tg vs =>
+    simp only [execRemote]
+    unfold Rga.updateRemote
+    obtain ⟨l', hl'⟩ := updateRemote_go_some tg vs ts l.nodes (h.2 p tg vs rfl)
+    simp only [hl']
+    exact ⟨_, rfl⟩
+  | delete p k tg => exact ⟨_, rfl⟩
+  | _ => exact ⟨_, rfl⟩
+
+theorem execRemoteBase_safe (r : Replica) (l : Rga) (hs : r.state = .list l) (o : Op) (h : RemoteSafe o.body) :
+    (r.execRemoteBase o).2 = none ∧ ∃ l', (r.execRemoteBase o).1.state = .list l' := by
+  obtain ⟨l', hl'⟩ := execRemote_list_safe l o.id.ts o.body h
+  simp [Replica.execRemoteBase, hs, hl']
+
+/-- what a local list execution queues is safe to execute remotely -/
+theorem localOp_safe {l l' : Rga} {ts : Ts} {b : OpBody} (h : LocalOp l ts b l') :
+    RemoteSafe b ∧ b.isMeta = false ∧ (∀ tag k, b ≠ .transaction tag k) := by
+  rcases h with ⟨pos, a, vs, rfl, _⟩ | ⟨pos, num, tg, old, rfl, _⟩ | ⟨pos, tg, vs, old, rfl, hl⟩
+  · exact ⟨⟨fun p vs' e => (by cases e), fun p tg vs' e => (by cases e)⟩, rfl, fun _ _ e => (by cases e)⟩
+  · exact ⟨⟨fun p vs' e => (by cases e), fun p tg vs' e => (by cases e)⟩, rfl, fun _ _ e => (by cases e)⟩
+  · refine ⟨⟨fun p vs' e => (by cases e), ?_⟩, rfl, fun _ _ e => (by cases e)⟩
+    intro p tg' vs' e
+    simp only [OpBody.update.injEq] at e
+    obtain ⟨_, rfl, rfl⟩ := e
+    unfold Rga.updateLocal at hl
+    simp only at hl
+    cases hr : Rga.updateLocal.go pos ((delimSeq ts vs.length).zip vs) l.nodes with
+    | none => rw [hr] at hl; cases hl
+    | some res =>
+      obtain ⟨l'', tc⟩ := res
+      rw [hr] at hl
+      simp only [Outcome.ok.injEq, Prod.mk.injEq] at hl
+      obtain ⟨_, rfl, _⟩ := hl
+      have := updGo_length _ _ _ _ _ hr
+      rw [List.length_zip, delimSeq_length] at this
+      simp [this]
+
+
+/-! ## 1. the system: list replicas with transactions around ONE server log, whole-buffer pushes, whole-log pulls -/
+
+/-- a transaction header -/
+def isHdr (o : Op) : Bool :=
+  match o.body with
+  | .transaction _ _ => true
+  | _ => false
+
+/-- a unit of the log: ONE plain operation, or a header announcing `k + 1` followed by `k` plain operations -/
+def IsUnit (u : List Op) : Prop :=
+  (∃ o, u = [o] ∧ isHdr o = false) ∨
+  (∃ id tag ops, u = ⟨id, .transaction tag ((ops.length : Int) + 1)⟩ :: ops ∧ ∀ o ∈ ops, isHdr o = false)
+
+/-- the log entries a list of (author, unit) stands for -/
+def flatU (units : List (Nat × List Op)) : List LEnt := units.flatMap (fun au => au.2.map (fun o => (au.1, o)))
+
+/-- what node `i` hands to `receive` when it pulls: the operations of the others in the rest of the log, in log order -/
+def pullOps (log : List LEnt) (i : Nat) (nd : Node) : List Op := (oth i (log.drop nd.pulled)).map (·.2)
+
+inductive Step : Net → Net → Prop
+  /-- node `i` issues the public call `c` — ANY `Call` -/
+  | call (net : Net) (i : Nat) (nd : Node) (c : Call) (hi : net.nodes[i]? = some nd) :
+      Step net ⟨net.nodes.set i { nd with r := (nd.r.call c).1 }, net.log⟩
+  /-- node `i` runs the user transaction `tag` whose body issues `calls` (ANY calls; `stopOnErr`: the body returns at
+      the first refused call; `failAtEnd`: the user function returns an error) -/
+  | tx (net : Net) (i : Nat) (nd : Node) (tag : String) (calls : List Call) (stopOnErr failAtEnd : Bool)
+      (hi : net.nodes[i]? = some nd) :
+      Step net ⟨net.nodes.set i { nd with r := (nd.r.txCalls tag calls stopOnErr failAtEnd).1 }, net.log⟩
+  /-- ALL unpushed operations of node `i`'s buffer are appended to the log, in buffer order (one request) -/
+  | pushAll (net : Net) (i : Nat) (nd : Node) (hi : net.nodes[i]? = some nd) :
+      Step net ⟨net.nodes.set i { nd with pushed := nd.r.buffer.length },
+                net.log ++ (nd.r.buffer.drop nd.pushed).map (fun o => (i, o))⟩
+  /-- node `i` consumes the whole rest of the log: the entries of the others go through ONE `Replica.receive` -/
+  | pullAll (net : Net) (i : Nat) (nd : Node) (hi : net.nodes[i]? = some nd) :
+      Step net ⟨net.nodes.set i { nd with r := (nd.r.receive (pullOps net.log i nd)).1, pulled := net.log.length },
+                net.log⟩
+
+/-- reachable from `n` fresh subscribers `Replica.new .list (cuid i) false` with pairwise distinct client identifiers -/
+inductive Reach (cuid : Nat → String) (n : Nat) : Net → Prop
+  | init (hc : CuidsDistinct cuid n) : Reach cuid n (Net.init cuid n)
+  | step {net net' : Net} : Reach cuid n net → Step net net' → Reach cuid n net'
+
+/-! ### the executable form -/
+
+inductive Act where
+  | call (i : Nat) (c : Call)
+  | tx (i : Nat) (tag : String) (calls : List Call) (stopOnErr failAtEnd : Bool)
+  | pushAll (i : Nat)
+  | pullAll (i : Nat)
+
+def act (net : Net) : Act → Option Net
+  | .call i c =>
+    match net.nodes[i]? with
+    | some nd => some ⟨net.nodes.set i { nd with r := (nd.r.call c).1 }, net.log⟩
+    | none => none
+  | .tx i tag calls s f =>
+    match net.nodes[i]? with
+    | some nd => some ⟨net.nodes.set i { nd with r := (nd.r.txCalls tag calls s f).1 }, net.log⟩
+    | none => none
+  | .pushAll i =>
+    match net.nodes[i]? with
+    | some nd => some ⟨net.nodes.set i { nd with pushed := nd.r.buffer.length },
+        net.log ++ (nd.r.buffer.drop nd.pushed).map (fun o => (i, o))⟩
+    | none => none
+  | .pullAll i =>
+    match net.nodes[i]? with
+    | some nd => some ⟨net.nodes.set i { nd with r := (nd.r.receive (pullOps net.log i nd)).1,
+                                                  pulled := net.log.length }, net.log⟩
+    | none => none
+
+def run (net : Net) : List Act → Option Net
+  | [] => some net
+  | a :: as => match act net a with
+    | some net' => run net' as
+    | none => none
+
+theorem step_of_act {net net' : Net} {a : Act} (h : act net a = some net') : Step net net' := by
+  cases a with
+  | call i c =>
+    simp only [act] at h
+    cases hn : net.nodes[i]? with
+    | none => rw [hn] at h; cases h
+    | some nd =>
+      rw [hn] at h
+      simp only [Option.some.injEq] at h
+      subst h
+      exact .call net i nd c hn
+  | tx i tag calls s f =>
+    simp only [act] at h
+    cases hn : net.nodes[i]? with
+    | none => rw [hn] at h; cases h
+    | some nd =>
+      rw [hn] at h
+      simp only [Option.some.injEq] at h
+      subst h
+      exact .tx net i nd tag calls s f hn
+  | pushAll i =>
+    simp only [act] at h
+    cases hn : net.nodes[i]? with
+    | none => rw [hn] at h; cases h
+    | some nd =>
+      rw [hn] at h
+      simp only [Option.some.injEq] at h
+      subst h
+      exact .pushAll net i nd hn
+  | pullAll i =>
+    simp only [act] at h
+    cases hn : net.nodes[i]? with
+    | none => rw [hn] at h; cases h
+    | some nd =>
+      rw [hn] at h
+      simp only [Option.some.injEq] at h
+      subst h
+      exact .pullAll net i nd hn
+
+theorem reach_run {cuid : Nat → String} {n : Nat} : ∀ (as : List Act) {net net' : Net}, Reach cuid n net →
+    run net as = some net' → Reach cuid n net'
+  | [], _, _, hr, h => by
+    simp only [run, Option.some.injEq] at h
+    exact h ▸ hr
+  | a :: as, net, net', hr, h => by
+    simp only [run] at h
+    cases ha : act net a with
+    | none => rw [ha] at h; cases h
+    | some net1 =>
+      rw [ha] at h
+      exact reach_run as (.step hr (step_of_act ha)) h
+
+/-! ## 2. the invariant of `ListNet` under clock bumps, node replacement, many pushes, many pulls -/
+
+/-- `ListNet`'s node invariant only reads state, buffer and clock of the replica, and the clock only from below -/
+theorem nodeInv_noop {cuid : Nat → String} {n : Nat} {log : List LEnt} {i : Nat} {nd : Node} {A : List LEnt}
+    (N : NodeInv cuid n log i nd A) {r' : Replica} (h : Noop nd.r r') : NodeInv cuid n log i { nd with r := r' } A := by
+  obtain ⟨h1, h2, h3, h4, h5⟩ := h
+  exact {
+    st := by show r'.state = _; rw [h1]; exact N.st
+    lc := N.lc
+    pushed_le := by show nd.pushed ≤ r'.buffer.length; rw [h2]; exact N.pushed_le
+    pulled_le := N.pulled_le
+    own_eq := by show own i A = r'.buffer.map _; rw [h2]; exact N.own_eq
+    oth_eq := N.oth_eq
+    log_own := by show own i log = (r'.buffer.take nd.pushed).map _; rw [h2]; exact N.log_own
+    clock_cuid := by show r'.opId.cuid = _; rw [h3]; exact N.clock_cuid
+    clock_era := by show r'.opId.era = _; rw [h4]; exact N.clock_era
+    lam_le := by
+      intro e he
+      show _ ≤ r'.opId.lamport
+      exact Nat.le_trans (N.lam_le e he) h5
+    ent_ok := N.ent_ok
+    buf_sorted := by show r'.buffer.Pairwise _; rw [h2]; exact N.buf_sorted
+    keys := N.keys
+    causal := N.causal }
+
+theorem inv_replace {cuid : Nat → String} {n : Nat} {net : Net} {ap : Nat → List LEnt} (I : Inv cuid n net ap)
+    {i : Nat} {nd nd' : Node} {A' : List LEnt} (hi : net.nodes[i]? = some nd)
+    (N' : NodeInv cuid n net.log i nd' A') :
+    Inv cuid n ⟨net.nodes.set i nd', net.log⟩ (Function.update ap i A') := by
+  refine ⟨I.distinct, by simp [I.len], ?_, I.log_auth, I.log_keys⟩
+  intro j nd'' hj
+  rcases getElem?_set_some hj with ⟨rfl, rfl⟩ | ⟨hne, hj'⟩
+  · rw [Function.update_self]; exact N'
+  · rw [Function.update_of_ne hne]; exact I.node j nd'' hj'
+
+theorem inv_noop {cuid : Nat → String} {n : Nat} {net : Net} {ap : Nat → List LEnt} (I : Inv cuid n net ap)
+    {i : Nat} {nd : Node} {r' : Replica} (hi : net.nodes[i]? = some nd) (h : Noop nd.r r') :
+    ∃ ap', Inv cuid n ⟨net.nodes.set i { nd with r := r' }, net.log⟩ ap' :=
+  ⟨_, inv_replace I hi (nodeInv_noop (I.node i nd hi) h)⟩
+
+theorem set_self {α : Type} {l : List α} {i : Nat} {a : α} (h : l[i]? = some a) : l.set i a = l := by
+  apply List.ext_getElem?
+  intro j
+  rw [List.getElem?_set]
+  by_cases hij : i = j
+  · subst hij
+    obtain ⟨hlt, _⟩ := List.getElem?_eq_some_iff.mp h
+    rw [if_pos rfl, if_pos hlt, h]
+  · simp [hij]
+
+theorem getElem?_set_self' {α : Type} {l : List α} {i : Nat} {a b : α} (h : l[i]? = some a) :
+    (l.set i b)[i]? = some b := by
+  obtain ⟨hlt, _⟩ := List.getElem?_eq_some_iff.mp h
+  simp [hlt]
+
+/-- what one pull of `ListNet` does to the replica of node `i` -/
+def pullF (i : Nat) (r : Replica) (e : LEnt) : Replica := if e.1 = i then r else (r.execRemoteBase e.2).1
+
+/-- MANY pulls of `ListNet` in a row -/
+theorem inv_pulls {cuid : Nat → String} {n : Nat} {i : Nat} : ∀ (es : List LEnt) (net : Net) (ap : Nat → List LEnt)
+    (nd : Node), Inv cuid n net ap → net.nodes[i]? = some nd →
+    (∀ k (hk : k < es.length), net.log[nd.pulled + k]? = some es[k]) →
+    ∃ ap', Inv cuid n ⟨net.nodes.set i { nd with r := es.foldl (pullF i) nd.r, pulled := nd.pulled + es.length },
+      net.log⟩ ap'
+  | [], net, ap, nd, I, hi, _ => by
+    refine ⟨ap, ?_⟩
+    have : ({ nd with r := ([] : List LEnt).foldl (pullF i) nd.r, pulled := nd.pulled + ([] : List LEnt).length } : Node)
+        = nd := rfl
+    rw [this, set_self hi]
+    exact I
+  | e :: es, net, ap, nd, I, hi, hl => by
+    obtain ⟨a, o⟩ := e
+    have h0 : net.log[nd.pulled]? = some (a, o) := by
+      have := hl 0 (Nat.succ_pos _)
+      rw [Nat.add_zero] at this
+      exact this
+    obtain ⟨ap1, I1⟩ := I.pull hi h0
+    have hi1 : ∀ nd1 : Node, (net.nodes.set i nd1)[i]? = some nd1 := fun nd1 => getElem?_set_self' hi
+    obtain ⟨ap2, I2⟩ := inv_pulls es _ ap1 _ I1 (hi1 _) (by
+      intro k hk
+      have := hl (k + 1) (by simp; omega)
+      simp only [List.getElem_cons_succ] at this
+      rw [← this]
+      show net.log[nd.pulled + 1 + k]? = net.log[nd.pulled + (k + 1)]?
+      rw [Nat.add_assoc, Nat.add_comm 1 k])
+    refine ⟨ap2, ?_⟩
+    simp only [List.set_set] at I2
+    have e1 : nd.pulled + 1 + es.length = nd.pulled + ((a, o) :: es).length := by simp; omega
+    rw [e1] at I2
+    exact I2
+
+/-- MANY pushes of `ListNet` in a row: the whole rest of the buffer -/
+theorem inv_pushes {cuid : Nat → String} {n : Nat} {i : Nat} {ap : Nat → List LEnt} : ∀ (k : Nat) (net : Net)
+    (nd : Node), Inv cuid n net ap → net.nodes[i]? = some nd → nd.pushed + k = nd.r.buffer.length →
+    Inv cuid n ⟨net.nodes.set i { nd with pushed := nd.r.buffer.length },
+      net.log ++ (nd.r.buffer.drop nd.pushed).map (fun o => (i, o))⟩ ap
+  | 0, net, nd, I, hi, hk => by
+    have e1 : ({ nd with pushed := nd.r.buffer.length } : Node) = nd := by
+      have : nd.pushed = nd.r.buffer.length := by omega
+      cases nd
+      simp only at this
+      subst this
+      rfl
+    have e2 : nd.r.buffer.drop nd.pushed = [] := List.drop_eq_nil_of_le (by omega)
+    rw [e1, e2, set_self hi]
+    simpa using I
+  | k + 1, net, nd, I, hi, hk => by
+    have hp : nd.pushed < nd.r.buffer.length := by omega
+    have ho : nd.r.buffer[nd.pushed]? = some nd.r.buffer[nd.pushed] := List.getElem?_eq_getElem hp
+    have I1 := I.push hi ho
+    have hi1 : ∀ nd1 : Node, (net.nodes.set i nd1)[i]? = some nd1 := fun nd1 => getElem?_set_self' hi
+    have I2 := inv_pushes k _ _ I1 (hi1 _) (by show nd.pushed + 1 + k = nd.r.buffer.length; omega)
+    rw [List.set_set] at I2
+    have e : nd.r.buffer.drop nd.pushed = nd.r.buffer[nd.pushed] :: nd.r.buffer.drop (nd.pushed + 1) :=
+      (List.drop_eq_getElem_cons hp)
+    rw [e, List.map_cons, List.append_cons]
+    exact I2
+
+
+/-! ## 3. erasing the headers: the abstraction to a state of `ListNet` -/
+
+/-- not a header -/
+def nh (o : Op) : Bool := !isHdr o
+def eraseB (b : List Op) : List Op := b.filter nh
+def eraseL (l : List LEnt) : List LEnt := l.filter (fun e => nh e.2)
+
+theorem eraseB_append (a b : List Op) : eraseB (a ++ b) = eraseB a ++ eraseB b := by simp [eraseB]
+theorem eraseL_append (a b : List LEnt) : eraseL (a ++ b) = eraseL a ++ eraseL b := by simp [eraseL]
+
+theorem eraseL_map (i : Nat) (b : List Op) :
+    eraseL (b.map (fun o => ((i, o) : LEnt))) = (eraseB b).map (fun o => (i, o)) := by
+  induction b with
+  | nil => rfl
+  | cons o os ih =>
+    simp only [List.map_cons, eraseL, eraseB, List.filter_cons] at ih ⊢
+    split <;> simp [ih]
+
+theorem filter_drop_len {α : Type} (p : α → Bool) (l : List α) (k : Nat) :
+    (l.filter p).drop ((l.take k).filter p).length = (l.drop k).filter p := by
+  have h : l.filter p = (l.take k).filter p ++ (l.drop k).filter p := by
+    rw [← List.filter_append, List.take_append_drop]
+  rw [h, List.drop_left]
+
+theorem filter_take_len {α : Type} (p : α → Bool) (l : List α) (k : Nat) :
+    (l.filter p).take ((l.take k).filter p).length = (l.take k).filter p := by
+  have h : l.filter p = (l.take k).filter p ++ (l.drop k).filter p := by
+    rw [← List.filter_append, List.take_append_drop]
+  rw [h, List.take_left]
+
+theorem eraseB_all {b : List Op} (h : ∀ o ∈ b, isHdr o = false) : eraseB b = b := by
+  unfold eraseB
+  rw [List.filter_eq_self]
+  intro o ho
+  simp [nh, h o ho]
+
+theorem toL_hdr {o : Op} (h : isHdr o = true) : toL o = none := by
+  unfold isHdr at h
+  unfold toL
+  split at h
+  · rename_i tag k hb; rw [hb]
+  · cases h
+
+theorem filterMap_toL_eraseB (b : List Op) : (eraseB b).filterMap toL = b.filterMap toL := by
+  induction b with
+  | nil => rfl
+  | cons o os ih =>
+    unfold eraseB at ih ⊢
+    rw [List.filter_cons]
+    cases h : isHdr o
+    · simp only [nh, h, Bool.not_false, if_true, List.filterMap_cons, ih]
+    · simp only [nh, h, Bool.not_true, Bool.false_eq_true, if_false, List.filterMap_cons, toL_hdr h, ih]
+
+theorem oth_eraseL (i : Nat) (l : List LEnt) : oth i (eraseL l) = eraseL (oth i l) := by
+  unfold oth eraseL
+  rw [List.filter_filter, List.filter_filter]
+  congr 1
+  funext e
+  exact Bool.and_comm _ _
+
+theorem eraseL_snd (l : List LEnt) : (eraseL l).map (·.2) = eraseB (l.map (·.2)) := by
+  induction l with
+  | nil => rfl
+  | cons e es ih =>
+    simp only [eraseL, eraseB, List.filter_cons, List.map_cons] at ih ⊢
+    split <;> simp [ih]
+
+/-- node `nd0` of `ListNet` is node `nd` of this system with the headers erased -/
+structure AbsNode (log : List LEnt) (nd nd0 : Node) : Prop where
+  st : nd0.r.state = nd.r.state
+  id : nd0.r.opId = nd.r.opId
+  buf : nd0.r.buffer = eraseB nd.r.buffer
+  pushed : nd0.pushed = (eraseB (nd.r.buffer.take nd.pushed)).length
+  pulled : nd0.pulled = (eraseL (log.take nd.pulled)).length
+
+/-- `net0` is `net` with the headers erased from log and buffers -/
+structure Abs (net net0 : Net) : Prop where
+  log : net0.log = eraseL net.log
+  len : net0.nodes.length = net.nodes.length
+  node : ∀ (i : Nat) (nd : Node), net.nodes[i]? = some nd → ∃ nd0, net0.nodes[i]? = some nd0 ∧ AbsNode net.log nd nd0
+
+theorem abs_set {net net0 : Net} (h : Abs net net0) {i : Nat} {nd' nd0' : Node} (hn : AbsNode net.log nd' nd0') :
+    Abs ⟨net.nodes.set i nd', net.log⟩ ⟨net0.nodes.set i nd0', net0.log⟩ := by
+  refine ⟨h.log, by simp [h.len], ?_⟩
+  intro j nd hj
+  rcases getElem?_set_some hj with ⟨rfl, rfl⟩ | ⟨hne, hj'⟩
+  · have hlt : j < net.nodes.length := by
+      have := (List.getElem?_eq_some_iff.mp hj).1
+      simpa using this
+    refine ⟨nd0', ?_, hn⟩
+    show (net0.nodes.set j nd0')[j]? = some nd0'
+    rw [List.getElem?_set_self (by rw [h.len]; exact hlt)]
+  · obtain ⟨nd0, h1, h2⟩ := h.node j nd hj'
+    refine ⟨nd0, ?_, h2⟩
+    show (net0.nodes.set i nd0')[j]? = some nd0
+    rw [List.getElem?_set_ne (fun e => hne e.symm)]
+    exact h1
+
+/-! ### units -/
+
+/-- a concatenation of units -/
+def UnitsB (l : List Op) : Prop := ∃ us : List (List Op), l = us.flatten ∧ ∀ u ∈ us, IsUnit u
+def UnitsL (l : List LEnt) : Prop := ∃ units : List (Nat × List Op), l = flatU units ∧ ∀ au ∈ units, IsUnit au.2
+
+theorem unitsB_nil : UnitsB [] := ⟨[], rfl, by simp⟩
+theorem unitsL_nil : UnitsL [] := ⟨[], rfl, by simp⟩
+
+theorem unitsB_snoc {l u : List Op} (h : UnitsB l) (hu : IsUnit u) : UnitsB (l ++ u) := by
+  obtain ⟨us, rfl, h2⟩ := h
+  refine ⟨us ++ [u], by simp, ?_⟩
+  intro v hv
+  rcases List.mem_append.mp hv with h | h
+  · exact h2 v h
+  · simp only [List.mem_singleton] at h
+    exact h ▸ hu
+
+theorem flatU_append (a b : List (Nat × List Op)) : flatU (a ++ b) = flatU a ++ flatU b := by
+  simp [flatU]
+
+theorem flatU_cons (au : Nat × List Op) (b : List (Nat × List Op)) :
+    flatU (au :: b) = au.2.map (fun o => (au.1, o)) ++ flatU b := by
+  simp [flatU]
+
+theorem unitsL_append {a b : List LEnt} (ha : UnitsL a) (hb : UnitsL b) : UnitsL (a ++ b) := by
+  obtain ⟨ua, rfl, h1⟩ := ha
+  obtain ⟨ub, rfl, h2⟩ := hb
+  refine ⟨ua ++ ub, (flatU_append _ _).symm, ?_⟩
+  intro v hv
+  rcases List.mem_append.mp hv with h | h
+  · exact h1 v h
+  · exact h2 v h
+
+theorem flatU_map_author (i : Nat) (us : List (List Op)) :
+    flatU (us.map (fun u => (i, u))) = us.flatten.map (fun o => ((i, o) : LEnt)) := by
+  induction us with
+  | nil => rfl
+  | cons u us ih => rw [List.flatten_cons, List.map_append, List.map_cons, flatU_cons, ih]
+
+theorem unitsL_of_B (i : Nat) {l : List Op} (h : UnitsB l) : UnitsL (l.map (fun o => ((i, o) : LEnt))) := by
+  obtain ⟨us, rfl, h2⟩ := h
+  refine ⟨us.map (fun u => (i, u)), (flatU_map_author i us).symm, ?_⟩
+  · intro au hau
+    obtain ⟨u, hu, rfl⟩ := List.mem_map.mp hau
+    exact h2 u hu
+
+
+/-! ## 4. calls and transaction bodies only read state and clock -/
+
+theorem call_frame_view (r f : Replica) (c : Call) :
+    ((r.frame f).call c).1.state = (r.call c).1.state ∧ ((r.frame f).call c).1.opId = (r.call c).1.opId ∧
+    ∃ new, ((r.frame f).call c).1.buffer = f.buffer ++ new ∧ (r.call c).1.buffer = r.buffer ++ new := by
+  rw [call_eq, call_eq]
+  simp only [frame_state, execLocalBase_frame]
+  cases c.prepare r.state with
+  | done o => exact ⟨rfl, rfl, [], by simp, by simp⟩
+  | op b post =>
+    dsimp only
+    rcases he : r.execLocalBase b with ⟨r1, (⟨op, ret⟩ | e | w)⟩ <;> dsimp only
+    · obtain ⟨_, _, hf⟩ := execLocalBase_ok he
+      obtain ⟨_, f2, _⟩ := frame_fields hf
+      exact ⟨rfl, rfl, [op.wire], by simp, by simp [f2]⟩
+    · rw [execLocalBase_err he]; exact ⟨rfl, rfl, [], by simp, by simp⟩
+    · rw [execLocalBase_panic he]; exact ⟨rfl, rfl, [], by simp, by simp⟩
+
+/-- two replicas with the same state and clock react to a call in the same way -/
+theorem call_view (r r0 : Replica) (c : Call) (hs : r0.state = r.state) (hid : r0.opId = r.opId) :
+    (r0.call c).1.state = (r.call c).1.state ∧ (r0.call c).1.opId = (r.call c).1.opId ∧
+    ∃ new, (r0.call c).1.buffer = r0.buffer ++ new ∧ (r.call c).1.buffer = r.buffer ++ new := by
+  have e : r.frame r0 = r0 := frame_of_core hid.symm hs.symm
+  have := call_frame_view r r0 c
+  rw [e] at this
+  exact this
+
+theorem execLocalBase_no_panic {r : Replica} {l : Rga} (hs : r.state = .list l) (hsz : l.size = liveCount l.nodes)
+    {c : Call} {b : OpBody} {post : Ret → Ret} (hp : c.prepare r.state = .op b post) {r' : Replica} {w : String}
+    (he : r.execLocalBase b = (r', .panic w)) : False := by
+  rw [execLocalBase_eq] at he
+  rw [hs] at hp he
+  split at he
+  · simp at he
+  · have := execLocal_prepared_no_panic hsz hp r.opId.next.ts
+    split at he
+    · simp at he
+    · simp at he
+    · rename_i w' hw
+      exact this w' hw
+
+/-- a public call on a list whose stored Size is its number of live elements never panics -/
+theorem call_no_panic (r : Replica) (l : Rga) (hs : r.state = .list l) (hsz : l.size = liveCount l.nodes) (c : Call) :
+    (r.call c).2.isPanic = false := by
+  rw [call_eq]
+  cases hp : c.prepare r.state with
+  | done o =>
+    rw [hs] at hp
+    exact prepare_list_done hp
+  | op b post =>
+    dsimp only
+    rcases he : r.execLocalBase b with ⟨r1, (⟨op, ret⟩ | e | w)⟩ <;> dsimp only
+    · rfl
+    · rfl
+    · exact (execLocalBase_no_panic hs hsz hp he).elim
+
+theorem isHdr_false_of {o : Op} (h : ∀ tag k, o.body ≠ .transaction tag k) : isHdr o = false := by
+  unfold isHdr
+  split
+  · rename_i tag k hb; exact absurd hb (h tag k)
+  · rfl
+
+/-- an operation node `i` queues: not a header, safe to execute remotely, carries the client identifier of `i` -/
+structure GoodOp (cuid : Nat → String) (i : Nat) (o : Op) : Prop where
+  nh : isHdr o = false
+  safe : RemoteSafe o.body
+  cu : o.id.cuid = cuid i
+
+/-- what a call queues, from `ListNet`'s case analysis -/
+theorem call_new_good {cuid : Nat → String} {n : Nat} {log : List LEnt} {i : Nat} {nd : Node} {A : List LEnt}
+    (N : NodeInv cuid n log i nd A) (c : Call) {new : List Op} (hb : (nd.r.call c).1.buffer = nd.r.buffer ++ new) :
+    nd.r.opId.lamport ≤ (nd.r.call c).1.opId.lamport ∧
+    (new = [] ∨ ∃ o, new = [o] ∧ GoodOp cuid i o ∧ o.id.lamport = nd.r.opId.lamport + 1 ∧
+      (nd.r.call c).1.opId.lamport = nd.r.opId.lamport + 1) := by
+  rcases call_cases nd.r _ N.st c with ⟨h1, h2, h3, h4, h5⟩ | ⟨o, l', hbuf, hid, hop, hst, hloc⟩
+  · refine ⟨h5, Or.inl ?_⟩
+    rw [h2] at hb
+    have := congrArg List.length hb
+    simp only [List.length_append] at this
+    exact List.eq_nil_of_length_eq_zero (by omega)
+  · rw [hbuf] at hb
+    have hn : new = [o] := (List.append_cancel_left hb).symm
+    obtain ⟨s1, s2, s3⟩ := localOp_safe hloc
+    refine ⟨by rw [hop]; simp [OpId.next], Or.inr ⟨o, hn, ⟨isHdr_false_of s3, s1, ?_⟩, by rw [hid]; rfl, by rw [hop]; rfl⟩⟩
+    rw [hid]
+    exact N.clock_cuid
+
+theorem call_of_exec_ok {r ar : Replica} (hs : ar.state = r.state) (hid : ar.opId = r.opId) {c : Call} {b : OpBody}
+    {post : Ret → Ret} (hp : c.prepare r.state = .op b post) {r' : Replica} {op : Op} {ret : Ret}
+    (he : r.execLocalBase b = (r', .ok (op, ret))) :
+    (ar.call c).1.state = r'.state ∧ (ar.call c).1.opId = r'.opId ∧ (ar.call c).1.buffer = ar.buffer ++ [op.wire] := by
+  have e : r.frame ar = ar := frame_of_core hid.symm hs.symm
+  rw [← e, call_eq]
+  simp [hp, execLocalBase_frame, he]
+
+/-- **the body of a transaction, seen from `ListNet`**: an abstract replica `ar` (same state and clock, the buffer
+    of `ListNet`) that issues the successful operations as plain calls stays in `ListNet`'s node invariant; the body never
+    panics; the operations it records are good and newer than the clock at the start -/
+theorem body_sim {cuid : Nat → String} {n : Nat} {log0 : List LEnt} {i pu pl : Nat} (hin : i < n) (stop : Bool) :
+    ∀ (calls : List Call) (r : Replica) (acc : List Op) (outs : List (Outcome Ret)) (ar : Replica) (A : List LEnt),
+    ar.state = r.state → ar.opId = r.opId → NodeInv cuid n log0 i ⟨ar, pu, pl⟩ A →
+    ∀ {r1 ops outs' stopped pan}, Replica.txCalls.body stop r acc outs calls = (r1, ops, outs', stopped, pan) →
+    pan = none ∧ ∃ ar1 A1 new, ops = acc ++ new ∧ ar1.state = r1.state ∧ ar1.opId = r1.opId ∧
+      ar1.buffer = ar.buffer ++ new.map Op.wire ∧ NodeInv cuid n log0 i ⟨ar1, pu, pl⟩ A1 ∧
+      (∀ o ∈ new, GoodOp cuid i o.wire ∧ ar.opId.lamport < o.id.lamport) ∧
+      ar.opId.lamport ≤ ar1.opId.lamport := by
+  intro calls
+  induction calls with
+  | nil =>
+    intro r acc outs ar A hs hid N r1 ops outs' stopped pan h
+    simp only [Replica.txCalls.body, Prod.mk.injEq] at h
+    obtain ⟨h1, h2, _, _, h5⟩ := h
+    subst h1 h2 h5
+    exact ⟨rfl, ar, A, [], by simp, hs, hid, by simp, N, by simp, Nat.le_refl _⟩
+  | cons c cs ih =>
+    intro r acc outs ar A hs hid N r1 ops outs' stopped pan h
+    have stay : ∀ {r1' ops' outs'' stopped' pan'}, (r1', ops', outs'', stopped', pan') = (r1, ops, outs', stopped, pan) →
+        r1' = r → ops' = acc → pan' = none →
+        pan = none ∧ ∃ ar1 A1 new, ops = acc ++ new ∧ ar1.state = r1.state ∧ ar1.opId = r1.opId ∧
+          ar1.buffer = ar.buffer ++ new.map Op.wire ∧ NodeInv cuid n log0 i ⟨ar1, pu, pl⟩ A1 ∧
+          (∀ o ∈ new, GoodOp cuid i o.wire ∧ ar.opId.lamport < o.id.lamport) ∧
+          ar.opId.lamport ≤ ar1.opId.lamport := by
+      intro r1' ops' outs'' stopped' pan' e e1 e2 e3
+      simp only [Prod.mk.injEq] at e
+      obtain ⟨h1, h2, _, _, h5⟩ := e
+      subst e1 e2 e3 h1 h2
+      exact ⟨h5.symm, ar, A, [], by simp, hs, hid, by simp, N, by simp, Nat.le_refl _⟩
+    have hsl : r.state = .list _ := hs ▸ N.st
+    have hsz := size_eq_liveCount _ N.lc
+    rw [Replica.txCalls.body] at h
+    split at h
+    · exact ih _ _ _ _ _ hs hid N h
+    · split at h
+      · exact stay h rfl rfl rfl
+      · exact ih _ _ _ _ _ hs hid N h
+    · rename_i w hprep
+      rw [hsl] at hprep
+      have := prepare_list_done hprep
+      simp [Outcome.isPanic] at this
+    · rename_i b post hprep
+      rcases he : r.execLocalBase b with ⟨r', (⟨op, ret⟩ | e | w)⟩ <;> rw [he] at h <;> simp only [] at h
+      · obtain ⟨c1, c2, c3⟩ := call_of_exec_ok hs hid hprep he
+        obtain ⟨A', N'⟩ := N.call hin c
+        obtain ⟨hmono, hnew⟩ := call_new_good N c (new := [op.wire]) c3
+        have hgood : GoodOp cuid i op.wire ∧ op.wire.id.lamport = ar.opId.lamport + 1 ∧
+            (ar.call c).1.opId.lamport = ar.opId.lamport + 1 := by
+          rcases hnew with h0 | ⟨o, h0, g, g1, g2⟩
+          · cases h0
+          · simp only [List.cons.injEq, and_true] at h0
+            subst h0
+            exact ⟨g, g1, g2⟩
+        obtain ⟨hp, ar1, A1, new, e1, e2, e3, e4, N1, e5, e6⟩ := ih r' (acc ++ [op]) _ (ar.call c).1 A' c1 c2 N' h
+        refine ⟨hp, ar1, A1, op :: new, by simp [e1], e2, e3, by simp [e4, c3], N1, ?_, ?_⟩
+        · intro o ho
+          rcases List.mem_cons.mp ho with rfl | ho
+          · exact ⟨hgood.1, by have := hgood.2.1; rw [wire_id] at this; omega⟩
+          · obtain ⟨g1, g2⟩ := e5 o ho
+            exact ⟨g1, by have := hgood.2.2; omega⟩
+        · have := hgood.2.2; omega
+      · have := execLocalBase_err he
+        subst this
+        split at h
+        · exact stay h rfl rfl rfl
+        · exact ih _ _ _ _ _ hs hid N h
+      · exact (execLocalBase_no_panic hsl hsz hprep he).elim
+
+
+/-! ## 5. `receive` of a sequence of units, seen from `ListNet` -/
+
+/-- `S` (a replica of `ListNet`) is `R` (the replica of this system) up to a clock that is not ahead -/
+structure Le (S R : Replica) : Prop where
+  st : S.state = R.state
+  cu : S.opId.cuid = R.opId.cuid
+  era : S.opId.era = R.opId.era
+  lam : S.opId.lamport ≤ R.opId.lamport
+
+/-- remote execution, replica only -/
+def exS (r : Replica) (o : Op) : Replica := (r.execRemoteBase o).1
+
+theorem sync_mono {a b : OpId} (k : Nat) (h : a.lamport ≤ b.lamport) :
+    (a.syncLamport k).lamport ≤ (b.syncLamport k).lamport := by
+  unfold OpId.syncLamport
+  split <;> split <;> simp <;> omega
+
+theorem exS_state (r : Replica) (o : Op) :
+    (exS r o).state = (match execRemote r.state o.id.ts o.body with | .ok s' => s' | _ => r.state) := by
+  unfold exS Replica.execRemoteBase
+  split <;> simp_all
+
+theorem le_exec {S R : Replica} (h : Le S R) (o : Op) (x : List Op) :
+    Le (exS S o) { exS R o with rbOps := x } := by
+  refine ⟨?_, ?_, ?_, ?_⟩
+  · show (exS S o).state = (exS R o).state
+    rw [exS_state, exS_state, h.st]
+  · show (exS S o).opId.cuid = (exS R o).opId.cuid
+    unfold exS
+    rw [execRemoteBase_opId, execRemoteBase_opId, sync_cuid, sync_cuid]; exact h.cu
+  · show (exS S o).opId.era = (exS R o).opId.era
+    unfold exS
+    rw [execRemoteBase_opId, execRemoteBase_opId, sync_era, sync_era]; exact h.era
+  · show (exS S o).opId.lamport ≤ (exS R o).opId.lamport
+    unfold exS
+    rw [execRemoteBase_opId, execRemoteBase_opId]; exact sync_mono _ h.lam
+
+theorem execRemote_hdr (l : Rga) (ts : Ts) {o : Op} (ho : isHdr o = true) :
+    execRemote (.list l) ts o.body = .ok (.list l) := by
+  unfold isHdr at ho
+  split at ho
+  · rename_i tag k hb; rw [hb]; rfl
+  · cases ho
+
+theorem le_hdr {S R : Replica} (h : Le S R) {l : Rga} (hs : R.state = .list l) {o : Op} (ho : isHdr o = true)
+    (x : List Op) : Le S { exS R o with rbOps := x } := by
+  refine ⟨?_, ?_, ?_, ?_⟩
+  · show S.state = (exS R o).state
+    rw [exS_state, hs, execRemote_hdr l _ ho, h.st, hs]
+  · show S.opId.cuid = (exS R o).opId.cuid
+    unfold exS
+    rw [execRemoteBase_opId, sync_cuid]; exact h.cu
+  · show S.opId.era = (exS R o).opId.era
+    unfold exS
+    rw [execRemoteBase_opId, sync_era]; exact h.era
+  · show S.opId.lamport ≤ (exS R o).opId.lamport
+    unfold exS
+    rw [execRemoteBase_opId]; exact Nat.le_trans h.lam (sync_lam _ _).1
+
+theorem hdr_safe {o : Op} (ho : isHdr o = true) : RemoteSafe o.body := by
+  unfold isHdr at ho
+  split at ho
+  · rename_i tag k hb
+    rw [hb]
+    exact ⟨fun _ _ e => (by cases e), fun _ _ _ e => (by cases e)⟩
+  · cases ho
+
+/-- the operations of a unit are executed one after the other, none panics -/
+theorem go_sim : ∀ (ops : List Op) (S R : Replica) (l : Rga), Le S R → R.state = .list l →
+    (∀ o ∈ ops, RemoteSafe o.body) →
+    ∃ R' l', Replica.applyUnit.go R ops = (R', .ok ()) ∧ Le (ops.foldl exS S) R' ∧ R'.state = .list l'
+  | [], S, R, l, h, hs, _ => ⟨R, l, by unfold Replica.applyUnit.go; rfl, h, hs⟩
+  | o :: os, S, R, l, h, hs, hsafe => by
+    obtain ⟨h1, l1, h2⟩ := execRemoteBase_safe R l hs o (hsafe o List.mem_cons_self)
+    rw [applyUnit_go_cons]
+    have e : R.execRemoteBase o = (exS R o, none) := by
+      unfold exS
+      rw [← h1]
+    rw [e]
+    simp only []
+    exact go_sim os (exS S o) _ l1 (le_exec h o _) h2 (fun o' ho' => hsafe o' (List.mem_cons_of_mem _ ho'))
+
+theorem go_single_hdr {S R : Replica} {l : Rga} (h : Le S R) (hs : R.state = .list l) {o : Op}
+    (ho : isHdr o = true) :
+    ∃ R' l', Replica.applyUnit.go R [o] = (R', .ok ()) ∧ Le S R' ∧ R'.state = .list l' := by
+  obtain ⟨h1, l1, h2⟩ := execRemoteBase_safe R l hs o (hdr_safe ho)
+  have e : R.execRemoteBase o = (exS R o, none) := by
+    unfold exS
+    rw [← h1]
+  refine ⟨{ exS R o with rbOps := (exS R o).rbOps ++ [o] }, l1, ?_, le_hdr h hs ho _, h2⟩
+  rw [applyUnit_go_cons, e]
+  simp only []
+  unfold Replica.applyUnit.go
+  rfl
+
+theorem applyUnit_single (r : Replica) (o : Op) : r.applyUnit [o] = Replica.applyUnit.go r [o] := rfl
+
+theorem applyUnit_hdr (r : Replica) (id : OpId) (tag : String) (o : Op) (ops : List Op) :
+    r.applyUnit (⟨id, .transaction tag (((o :: ops).length : Int) + 1)⟩ :: o :: ops) =
+      Replica.applyUnit.go r (o :: ops) := by
+  simp only [Replica.applyUnit]
+  rw [if_neg (by simp)]
+
+/-- **one unit**: applied completely, never refused, never a panic; on the `ListNet` side: its plain operations -/
+theorem unit_sim {u : List Op} (hu : IsUnit u) (hsafe : ∀ o ∈ u, RemoteSafe o.body) {S R : Replica} {l : Rga}
+    (h : Le S R) (hs : R.state = .list l) :
+    ∃ R' l', R.applyUnit u = (R', .ok ()) ∧ Le ((eraseB u).foldl exS S) R' ∧ R'.state = .list l' := by
+  rcases hu with ⟨o, rfl, ho⟩ | ⟨id, tag, ops, rfl, hops⟩
+  · rw [applyUnit_single, eraseB_all (by simpa using ho)]
+    exact go_sim [o] S R l h hs hsafe
+  · cases ops with
+    | nil =>
+      rw [applyUnit_single]
+      have hh : isHdr (⟨id, .transaction tag ((([] : List Op).length : Int) + 1)⟩ : Op) = true := rfl
+      have : eraseB [(⟨id, .transaction tag ((([] : List Op).length : Int) + 1)⟩ : Op)] = [] := rfl
+      rw [this]
+      exact go_single_hdr h hs hh
+    | cons o ops =>
+      rw [applyUnit_hdr]
+      have : eraseB ((⟨id, .transaction tag (((o :: ops).length : Int) + 1)⟩ : Op) :: o :: ops) = o :: ops := by
+        have hh : isHdr (⟨id, .transaction tag (((o :: ops).length : Int) + 1)⟩ : Op) = true := rfl
+        show List.filter nh _ = _
+        rw [List.filter_cons]
+        simp only [nh, hh, Bool.not_true, Bool.false_eq_true, if_false]
+        exact eraseB_all hops
+      rw [this]
+      exact go_sim (o :: ops) S R l h hs (fun o' ho' => hsafe o' (List.mem_cons_of_mem _ ho'))
+
+/-- the first operation of a unit announces the unit's length correctly -/
+theorem unit_head {u : List Op} (hu : IsUnit u) :
+    ∃ o tl, u = o :: tl ∧ o.unitLen = u.length ∧ ∀ k, u.length ≤ k → o.badHeader k = false := by
+  rcases hu with ⟨o, rfl, ho⟩ | ⟨id, tag, ops, rfl, hops⟩
+  · refine ⟨o, [], rfl, ?_, ?_⟩
+    · unfold isHdr at ho
+      unfold Op.unitLen
+      split
+      · rename_i tag k hb; rw [hb] at ho; cases ho
+      · rfl
+    · intro k _
+      unfold isHdr at ho
+      unfold Op.badHeader
+      split
+      · rename_i tag k hb; rw [hb] at ho; cases ho
+      · rfl
+  · refine ⟨_, ops, rfl, ?_, ?_⟩
+    · simp [Op.unitLen]
+    · intro k hk
+      simp only [List.length_cons] at hk
+      simp [Op.badHeader]
+      omega
+
+theorem oth_map_self (i : Nat) (u : List Op) : oth i (u.map (fun o => ((i, o) : LEnt))) = [] := by
+  simp [oth]
+
+theorem oth_map_ne {i a : Nat} (h : a ≠ i) (u : List Op) :
+    oth i (u.map (fun o => ((a, o) : LEnt))) = u.map (fun o => (a, o)) := by
+  unfold oth
+  rw [List.filter_eq_self]
+  intro e he
+  obtain ⟨o, _, rfl⟩ := List.mem_map.mp he
+  simp [h]
+
+theorem foldl_pullF_own (i : Nat) : ∀ (b : List Op) (S : Replica),
+    (b.map (fun o => ((i, o) : LEnt))).foldl (pullF i) S = S
+  | [], S => rfl
+  | o :: os, S => by
+    simp only [List.map_cons, List.foldl_cons, pullF, if_true]
+    exact foldl_pullF_own i os S
+
+theorem foldl_pullF_other {i a : Nat} (h : a ≠ i) : ∀ (b : List Op) (S : Replica),
+    (b.map (fun o => ((a, o) : LEnt))).foldl (pullF i) S = b.foldl exS S
+  | [], S => rfl
+  | o :: os, S => by
+    simp only [List.map_cons, List.foldl_cons, pullF, if_neg h]
+    exact foldl_pullF_other h os _
+
+/-- **`receive` of the foreign units of a stretch of the log**: every unit is applied, the result is `.ok ()`; on the
+    `ListNet` side the plain entries of the stretch are pulled one by one (own entries skipped) -/
+theorem recv_sim (i : Nat) : ∀ (units : List (Nat × List Op)),
+    (∀ au ∈ units, IsUnit au.2 ∧ ∀ o ∈ au.2, RemoteSafe o.body) →
+    ∀ (fuel : Nat) (S R : Replica) (l : Rga), Le S R → R.state = .list l →
+    ((oth i (flatU units)).map (·.2)).length ≤ fuel →
+    ∃ R' l', Replica.receive.go fuel R ((oth i (flatU units)).map (·.2)) = (R', .ok ()) ∧
+      Le ((eraseL (flatU units)).foldl (pullF i) S) R' ∧ R'.state = .list l'
+  | [], _, fuel, S, R, l, h, hs, _ => ⟨R, l, by simp [flatU, oth, receive_go_nil], h, hs⟩
+  | (a, u) :: units, hall, fuel, S, R, l, h, hs, hf => by
+    have hall' : ∀ au ∈ units, IsUnit au.2 ∧ ∀ o ∈ au.2, RemoteSafe o.body :=
+      fun au hau => hall au (List.mem_cons_of_mem _ hau)
+    obtain ⟨hu, hsafe⟩ := hall (a, u) List.mem_cons_self
+    simp only at hu hsafe
+    rw [flatU_cons, oth_append, eraseL_append, List.foldl_append, eraseL_map] at *
+    by_cases ha : a = i
+    · subst ha
+      simp only [oth_map_self, List.nil_append, foldl_pullF_own] at hf ⊢
+      exact recv_sim a units hall' fuel S R l h hs hf
+    · simp only [oth_map_ne ha, foldl_pullF_other ha, List.map_append, List.map_map] at hf ⊢
+      have em : (u.map ((fun e : LEnt => e.2) ∘ fun o => ((a, o) : LEnt))) = u := by
+        simp [Function.comp_def]
+      rw [em] at hf ⊢
+      obtain ⟨o, tl, rfl, hlen, hbad⟩ := unit_head hu
+      cases fuel with
+      | zero => simp at hf
+      | succ fuel =>
+        rw [List.cons_append, receive_go_succ, ← List.cons_append]
+        rw [hbad _ (by simp)]
+        simp only [Bool.false_eq_true, if_false, hlen, List.take_left', List.drop_left']
+        obtain ⟨R1, l1, g1, g2, g3⟩ := unit_sim hu hsafe h hs
+        rw [g1]
+        simp only []
+        exact recv_sim i units hall' fuel _ R1 l1 g2 g3 (by simp at hf ⊢; omega)
+
+theorem foldl_pullF_buffer (i : Nat) : ∀ (es : List LEnt) (S : Replica), (es.foldl (pullF i) S).buffer = S.buffer
+  | [], S => rfl
+  | e :: es, S => by
+    rw [List.foldl_cons, foldl_pullF_buffer i es]
+    unfold pullF
+    split
+    · rfl
+    · exact execRemoteBase_buffer _ _
+
+
+/-! ## 6. the invariant of the system -/
+
+/-- what is known about a node beyond its `ListNet` image -/
+structure NodeOK (cuid : Nat → String) (log : List LEnt) (i : Nat) (nd : Node) : Prop where
+  rb : nd.r.RbInv
+  pushed_le : nd.pushed ≤ nd.r.buffer.length
+  pulled_le : nd.pulled ≤ log.length
+  /-- the unpushed rest of the buffer is a concatenation of units -/
+  rest_units : UnitsB (nd.r.buffer.drop nd.pushed)
+  /-- `pulled` sits at a unit boundary: the unconsumed rest of the log is a concatenation of units -/
+  pull_units : UnitsL (log.drop nd.pulled)
+  buf_ok : ∀ o ∈ nd.r.buffer, o.id.cuid = cuid i ∧ RemoteSafe o.body
+  log_own : own i log = (nd.r.buffer.take nd.pushed).map (fun o => (i, o))
+  buf_sorted : nd.r.buffer.Pairwise (fun o o' => o.id.lamport < o'.id.lamport)
+  buf_lam : ∀ o ∈ nd.r.buffer, o.id.lamport ≤ nd.r.opId.lamport
+
+structure TInv (cuid : Nat → String) (n : Nat) (net : Net) : Prop where
+  /-- erasing the headers gives a state that satisfies `ListNet`'s invariant -/
+  sim : ∃ net0 ap, Inv cuid n net0 ap ∧ Abs net net0
+  node : ∀ (i : Nat) (nd : Node), net.nodes[i]? = some nd → NodeOK cuid net.log i nd
+  /-- ONE decomposition of the log into units, and every `pulled` sits at one of ITS boundaries -/
+  log_units : ∃ units : List (Nat × List Op), net.log = flatU units ∧ (∀ au ∈ units, IsUnit au.2) ∧
+    ∀ (i : Nat) (nd : Node), net.nodes[i]? = some nd → ∃ k, nd.pulled = (flatU (units.take k)).length
+  log_ok : ∀ e ∈ net.log, e.1 < n ∧ e.2.id.cuid = cuid e.1 ∧ RemoteSafe e.2.body
+  /-- headers included: no two entries of the log carry the same (lamport, client) -/
+  log_keys : net.log.Pairwise (fun e e' => lkey e ≠ lkey e')
+
+theorem AbsNode.extend {log : List LEnt} {nd nd0 : Node} (An : AbsNode log nd nd0)
+    (hp : nd.pushed ≤ nd.r.buffer.length) {r' r0' : Replica} {u : List Op}
+    (hs : r0'.state = r'.state) (hid : r0'.opId = r'.opId) (hb : r'.buffer = nd.r.buffer ++ u)
+    (hb0 : r0'.buffer = nd0.r.buffer ++ eraseB u) :
+    AbsNode log { nd with r := r' } { nd0 with r := r0' } where
+  st := hs
+  id := hid
+  buf := by
+    show r0'.buffer = eraseB r'.buffer
+    rw [hb0, hb, eraseB_append, An.buf]
+  pushed := by
+    show nd0.pushed = (eraseB (r'.buffer.take nd.pushed)).length
+    rw [hb, List.take_append_of_le_length hp]
+    exact An.pushed
+  pulled := An.pulled
+
+theorem NodeOK.extend {cuid : Nat → String} {log : List LEnt} {i : Nat} {nd : Node} (K : NodeOK cuid log i nd)
+    {r' : Replica} {u : List Op} (hb : r'.buffer = nd.r.buffer ++ u) (hu : u = [] ∨ IsUnit u) (hrb : r'.RbInv)
+    (hgood : ∀ o ∈ u, o.id.cuid = cuid i ∧ RemoteSafe o.body ∧ nd.r.opId.lamport < o.id.lamport ∧
+      o.id.lamport ≤ r'.opId.lamport)
+    (hsorted : u.Pairwise (fun o o' => o.id.lamport < o'.id.lamport))
+    (hmono : nd.r.opId.lamport ≤ r'.opId.lamport) : NodeOK cuid log i { nd with r := r' } where
+  rb := hrb
+  pushed_le := by
+    show nd.pushed ≤ r'.buffer.length
+    rw [hb, List.length_append]
+    exact Nat.le_trans K.pushed_le (Nat.le_add_right _ _)
+  pulled_le := K.pulled_le
+  rest_units := by
+    show UnitsB (r'.buffer.drop nd.pushed)
+    rw [hb, List.drop_append_of_le_length K.pushed_le]
+    rcases hu with rfl | hu
+    · simpa using K.rest_units
+    · exact unitsB_snoc K.rest_units hu
+  pull_units := K.pull_units
+  buf_ok := by
+    intro o ho
+    change o ∈ r'.buffer at ho
+    rw [hb] at ho
+    rcases List.mem_append.mp ho with h | h
+    · exact K.buf_ok o h
+    · exact ⟨(hgood o h).1, (hgood o h).2.1⟩
+  log_own := by
+    show own i log = (r'.buffer.take nd.pushed).map _
+    rw [hb, List.take_append_of_le_length K.pushed_le]
+    exact K.log_own
+  buf_sorted := by
+    show r'.buffer.Pairwise _
+    rw [hb]
+    refine List.pairwise_append.mpr ⟨K.buf_sorted, hsorted, ?_⟩
+    intro a ha b hb'
+    have := K.buf_lam a ha
+    have := (hgood b hb').2.2.1
+    omega
+  buf_lam := by
+    intro o ho
+    change o ∈ r'.buffer at ho
+    show _ ≤ r'.opId.lamport
+    rw [hb] at ho
+    rcases List.mem_append.mp ho with h | h
+    · exact Nat.le_trans (K.buf_lam o h) hmono
+    · exact (hgood o h).2.2.2
+
+namespace TInv
+variable {cuid : Nat → String} {n : Nat} {net : Net}
+
+theorem at_node (T : TInv cuid n net) {i : Nat} {nd : Node} (hi : net.nodes[i]? = some nd) :
+    ∃ net0 ap nd0, Inv cuid n net0 ap ∧ Abs net net0 ∧ net0.nodes[i]? = some nd0 ∧ AbsNode net.log nd nd0 ∧ i < n := by
+  obtain ⟨net0, ap, I, Ab⟩ := T.sim
+  obtain ⟨nd0, h0, An⟩ := Ab.node i nd hi
+  exact ⟨net0, ap, nd0, I, Ab, h0, An, I.lt_of_node h0⟩
+
+theorem set_node (T : TInv cuid n net) {i : Nat} {nd nd' : Node} {net0' : Net} {ap' : Nat → List LEnt}
+    (hi : net.nodes[i]? = some nd) (hpl : nd'.pulled = nd.pulled ∨ nd'.pulled = net.log.length)
+    (I : Inv cuid n net0' ap') (A : Abs ⟨net.nodes.set i nd', net.log⟩ net0') (K : NodeOK cuid net.log i nd') :
+    TInv cuid n ⟨net.nodes.set i nd', net.log⟩ where
+  sim := ⟨net0', ap', I, A⟩
+  node := by
+    intro j nd hj
+    rcases getElem?_set_some hj with ⟨rfl, rfl⟩ | ⟨hne, hj'⟩
+    · exact K
+    · exact T.node j nd hj'
+  log_units := by
+    obtain ⟨units, h1, h2, h3⟩ := T.log_units
+    refine ⟨units, h1, h2, ?_⟩
+    intro j ndj hj
+    rcases getElem?_set_some hj with ⟨rfl, rfl⟩ | ⟨hne, hj'⟩
+    · rcases hpl with h | h
+      · obtain ⟨k, hk⟩ := h3 j nd hi
+        exact ⟨k, h.trans hk⟩
+      · exact ⟨units.length, by rw [h, List.take_length, ← h1]⟩
+    · exact h3 j ndj hj'
+  log_ok := T.log_ok
+  log_keys := T.log_keys
+
+end TInv
+
+theorem net_eta (net : Net) : (⟨net.nodes, net.log⟩ : Net) = net := rfl
+
+/-! ### the steps -/
+
+namespace TInv
+variable {cuid : Nat → String} {n : Nat} {net : Net}
+
+/-- a public call -/
+theorem call (T : TInv cuid n net) {i : Nat} {nd : Node} (hi : net.nodes[i]? = some nd) (c : Call) :
+    TInv cuid n ⟨net.nodes.set i { nd with r := (nd.r.call c).1 }, net.log⟩ := by
+  obtain ⟨net0, ap, nd0, I, Ab, h0, An, hin⟩ := T.at_node hi
+  have N0 := I.node i nd0 h0
+  have K := T.node i nd hi
+  obtain ⟨v1, v2, new, v3, v4⟩ := call_view nd.r nd0.r c An.st An.id
+  obtain ⟨hmono, hnew⟩ := call_new_good N0 c v3
+  obtain ⟨ap', I'⟩ := I.call c h0
+  have hsl : nd.r.state = .list _ := An.st ▸ N0.st
+  have hnp := call_no_panic nd.r _ hsl (size_eq_liveCount _ N0.lc) c
+  have hnh : ∀ o ∈ new, isHdr o = false := by
+    intro o ho
+    rcases hnew with rfl | ⟨o', rfl, g, _⟩
+    · cases ho
+    · simp only [List.mem_singleton] at ho; subst ho; exact g.nh
+  refine T.set_node hi (Or.inl rfl) I' (abs_set Ab ?_) ?_
+  · exact An.extend K.pushed_le v1 v2 v4 (by rw [v3, eraseB_all hnh])
+  · refine K.extend v4 ?_ (rbInv_call nd.r c K.rb hnp) ?_ ?_ ?_
+    · rcases hnew with rfl | ⟨o', rfl, g, _⟩
+      · exact Or.inl rfl
+      · exact Or.inr (Or.inl ⟨o', rfl, g.nh⟩)
+    · intro o ho
+      rcases hnew with rfl | ⟨o', rfl, g, g1, g2⟩
+      · cases ho
+      · simp only [List.mem_singleton] at ho
+        subst ho
+        rw [← v2, ← An.id]
+        exact ⟨g.cu, g.safe, by omega, by omega⟩
+    · rcases hnew with rfl | ⟨o', rfl, _⟩
+      · exact List.Pairwise.nil
+      · exact List.pairwise_singleton _ _
+    · rw [← v2, ← An.id]; exact hmono
+
+end TInv
+
+
+theorem wire_hdr (id : OpId) (tag : String) (k : Int) :
+    Op.wire ⟨id, .transaction tag k⟩ = ⟨id, .transaction tag k⟩ := rfl
+
+/-- what a transaction does to a replica of a reachable node (`nd0`, `N0`: its `ListNet` image): either NOTHING
+    (state, clock, buffer, checkpoint as before: the body failed and the rollback restored everything) or ONE unit
+    `header :: ops` is appended; it never panics -/
+theorem tx_cases {cuid : Nat → String} {n : Nat} {log0 : List LEnt} {i : Nat} {nd0 : Node} {A : List LEnt}
+    (N0 : NodeInv cuid n log0 i nd0 A) (hin : i < n) (r : Replica) (hs : nd0.r.state = r.state)
+    (hid : nd0.r.opId = r.opId) (hrb : r.RbInv) (tag : String) (calls : List Call) (s f : Bool) :
+    let r' := (r.txCalls tag calls s f).1
+    r'.RbInv ∧
+    ((∃ c, (r.txCalls tag calls s f).2.2 = .err c ∧ r'.opId = r.opId ∧ r'.state = r.state ∧ r'.buffer = r.buffer ∧
+        r'.cp = r.cp) ∨
+     ((r.txCalls tag calls s f).2.2 = .ok () ∧
+      ∃ (ops : List Op) (ar1 : Replica) (A1 : List LEnt),
+        r'.buffer = r.buffer ++ (⟨r.opId.next, .transaction tag ((ops.length : Int) + 1)⟩ :: ops) ∧
+        ar1.state = r'.state ∧ ar1.opId = r'.opId ∧ ar1.buffer = nd0.r.buffer ++ ops ∧
+        NodeInv cuid n log0 i ⟨ar1, nd0.pushed, nd0.pulled⟩ A1 ∧
+        (∀ o ∈ ops, GoodOp cuid i o ∧ r.opId.lamport + 1 < o.id.lamport) ∧
+        r.opId.lamport + 1 ≤ r'.opId.lamport)) := by
+  intro r'
+  have Nb : NodeInv cuid n log0 i ⟨{ nd0.r with opId := nd0.r.opId.next }, nd0.pushed, nd0.pulled⟩ A :=
+    nodeInv_noop N0 (r' := { nd0.r with opId := nd0.r.opId.next }) ⟨rfl, rfl, rfl, rfl, by simp [OpId.next]⟩
+  obtain ⟨r1, ops, outs, stopped, pan, hb, hc⟩ := txCalls_cases r tag calls s f
+  obtain ⟨hpan, ar1, A1, new, e1, e2, e3, e4, N1, e5, e6⟩ :=
+    body_sim hin s calls { r with opId := r.opId.next } [] [] { nd0.r with opId := nd0.r.opId.next } A hs
+      (by show nd0.r.opId.next = r.opId.next; rw [hid]) Nb hb
+  subst hpan
+  simp only [List.nil_append] at e1
+  subst e1
+  have hbo := body_ok _ _ _ _ _ hb
+  have hf : r1.frame r = r1 := hbo.frame
+  rcases hc with ⟨w, hw, _⟩ | ⟨_, hst, e⟩ | ⟨_, hst, e⟩
+  · cases hw
+  · obtain ⟨r2, hr, g1, g2, g3, g4, g5, g6, g7⟩ := rollback_of_rbInv hrb hf
+    rw [hr] at e
+    simp only at e
+    have er : r' = r2 := by show (r.txCalls tag calls s f).1 = r2; rw [e]
+    rw [er]
+    refine ⟨rbInv_of_rb_eq (by rw [g5, g1]) (by rw [g6, g2]) g7, Or.inl ⟨Err.transaction, by rw [e], g1, g2, g3, g4⟩⟩
+  · have hp : (r.txCalls tag calls s f).2.2.isPanic = false := by rw [e]; rfl
+    have hrb' := rbInv_txCalls r tag calls s f hrb hp
+    obtain ⟨_, f2, _⟩ := frame_fields hf
+    have er : r' =
+        { r1 with
+          rbOps := r1.rbOps ++ (⟨r.opId.next, .transaction tag (ops.length + 1)⟩ :: ops),
+          buffer := r1.buffer ++ (⟨r.opId.next, .transaction tag (ops.length + 1)⟩ :: ops).map Op.wire } := by
+      show (r.txCalls tag calls s f).1 = _; rw [e]
+    refine ⟨hrb', Or.inr ⟨by rw [e], ops.map Op.wire, ar1, A1, ?_, ?_, ?_, e4, N1, ?_, ?_⟩⟩
+    · rw [er]
+      show r1.buffer ++ _ = _
+      rw [f2, List.map_cons, wire_hdr, List.length_map]
+    · rw [er]; exact e2
+    · rw [er]; exact e3
+    · intro o ho
+      obtain ⟨o', ho', rfl⟩ := List.mem_map.mp ho
+      obtain ⟨g1, g2⟩ := e5 o' ho'
+      refine ⟨g1, ?_⟩
+      rw [wire_id]
+      have : ({ nd0.r with opId := nd0.r.opId.next } : Replica).opId.lamport = r.opId.lamport + 1 := by
+        show nd0.r.opId.next.lamport = _; rw [hid]; rfl
+      omega
+    · rw [er]
+      show r.opId.lamport + 1 ≤ r1.opId.lamport
+      rw [← e3]
+      have : ({ nd0.r with opId := nd0.r.opId.next } : Replica).opId.lamport = r.opId.lamport + 1 := by
+        show nd0.r.opId.next.lamport = _; rw [hid]; rfl
+      omega
+
+namespace TInv
+variable {cuid : Nat → String} {n : Nat} {net : Net}
+
+/-- a user transaction -/
+theorem tx (T : TInv cuid n net) {i : Nat} {nd : Node} (hi : net.nodes[i]? = some nd) (tag : String)
+    (calls : List Call) (s f : Bool) :
+    TInv cuid n ⟨net.nodes.set i { nd with r := (nd.r.txCalls tag calls s f).1 }, net.log⟩ := by
+  obtain ⟨net0, ap, nd0, I, Ab, h0, An, hin⟩ := T.at_node hi
+  have N0 := I.node i nd0 h0
+  have K := T.node i nd hi
+  obtain ⟨hrb', hc⟩ := tx_cases N0 hin nd.r An.st An.id K.rb tag calls s f
+  rcases hc with ⟨c, _, g1, g2, g3, _⟩ | ⟨_, ops, ar1, A1, hb, e2, e3, e4, N1, e5, e6⟩
+  · -- nothing happened
+    have I' : Inv cuid n ⟨net0.nodes.set i nd0, net0.log⟩ ap := by rw [set_self h0]; exact I
+    refine T.set_node hi (Or.inl rfl) I' (abs_set Ab ?_) ?_
+    · have := An.extend (u := []) K.pushed_le (r' := (nd.r.txCalls tag calls s f).1) (r0' := nd0.r)
+        (An.st.trans g2.symm) (An.id.trans g1.symm) (by rw [g3]; simp) (by simp [eraseB])
+      exact this
+    · exact K.extend (u := []) (by rw [g3]; simp) (Or.inl rfl) hrb' (by simp) List.Pairwise.nil (by rw [g1]; exact Nat.le_refl _)
+  · -- one unit
+    have I' := inv_replace I h0 N1
+    have hnh : ∀ o ∈ ops, isHdr o = false := fun o ho => (e5 o ho).1.nh
+    have hcu : nd.r.opId.cuid = cuid i := by rw [← An.id]; exact N0.clock_cuid
+    refine T.set_node hi (Or.inl rfl) I' (abs_set Ab ?_) ?_
+    · refine An.extend (r0' := ar1) K.pushed_le e2 e3 hb ?_
+      rw [e4]
+      congr 1
+      show _ = List.filter nh _
+      rw [List.filter_cons]
+      have hh : isHdr (⟨nd.r.opId.next, .transaction tag ((ops.length : Int) + 1)⟩ : Op) = true := rfl
+      simp only [nh, hh, Bool.not_true, Bool.false_eq_true, if_false]
+      exact (eraseB_all hnh).symm
+    · have hlam : ∀ o ∈ ops, o.id.lamport ≤ (nd.r.txCalls tag calls s f).1.opId.lamport := by
+        intro o ho
+        rw [← e3]
+        exact N1.buf_lam (show o ∈ ar1.buffer by rw [e4]; exact List.mem_append_right _ ho)
+      refine K.extend hb (Or.inr (Or.inr ⟨_, _, ops, rfl, hnh⟩)) hrb' ?_ ?_ (by omega)
+      · intro o ho
+        rcases List.mem_cons.mp ho with rfl | ho
+        · exact ⟨hcu, hdr_safe rfl, by simp [OpId.next], by simp only [OpId.next]; omega⟩
+        · exact ⟨(e5 o ho).1.cu, (e5 o ho).1.safe, by have := (e5 o ho).2; omega, hlam o ho⟩
+      · refine List.pairwise_cons.mpr ⟨?_, ?_⟩
+        · intro o ho
+          have := (e5 o ho).2
+          simp only [OpId.next]
+          omega
+        · have := N1.buf_sorted
+          change ar1.buffer.Pairwise _ at this
+          rw [e4] at this
+          exact (List.pairwise_append.mp this).2.1
+
+end TInv
+
+
+theorem own_map_self (i : Nat) (u : List Op) :
+    own i (u.map (fun o => ((i, o) : LEnt))) = u.map (fun o => (i, o)) := by
+  unfold own
+  rw [List.filter_eq_self]
+  intro e he
+  obtain ⟨o, _, rfl⟩ := List.mem_map.mp he
+  simp
+
+theorem own_map_ne {i a : Nat} (h : a ≠ i) (u : List Op) : own i (u.map (fun o => ((a, o) : LEnt))) = [] := by
+  unfold own
+  rw [List.filter_eq_nil_iff]
+  intro e he
+  obtain ⟨o, _, rfl⟩ := List.mem_map.mp he
+  simp [h]
+
+theorem NodeOK.log_append {cuid : Nat → String} {log : List LEnt} {j : Nat} {nd : Node} (K : NodeOK cuid log j nd)
+    {i : Nat} (hne : j ≠ i) {x : List Op} (hx : UnitsB x) :
+    NodeOK cuid (log ++ x.map (fun o => ((i, o) : LEnt))) j nd where
+  rb := K.rb
+  pushed_le := K.pushed_le
+  pulled_le := by rw [List.length_append]; exact Nat.le_trans K.pulled_le (Nat.le_add_right _ _)
+  rest_units := K.rest_units
+  pull_units := by
+    rw [List.drop_append_of_le_length K.pulled_le]
+    exact unitsL_append K.pull_units (unitsL_of_B i hx)
+  buf_ok := K.buf_ok
+  log_own := by rw [own_append, own_map_ne (fun e => hne e.symm), List.append_nil]; exact K.log_own
+  buf_sorted := K.buf_sorted
+  buf_lam := K.buf_lam
+
+theorem AbsNode.log_append {log : List LEnt} {nd nd0 : Node} (An : AbsNode log nd nd0) (hp : nd.pulled ≤ log.length)
+    (x : List LEnt) : AbsNode (log ++ x) nd nd0 where
+  st := An.st
+  id := An.id
+  buf := An.buf
+  pushed := An.pushed
+  pulled := by rw [List.take_append_of_le_length hp]; exact An.pulled
+
+namespace TInv
+variable {cuid : Nat → String} {n : Nat} {net : Net}
+
+/-- the whole unpushed rest of the buffer goes to the log -/
+theorem pushAll (T : TInv cuid n net) {i : Nat} {nd : Node} (hi : net.nodes[i]? = some nd) :
+    TInv cuid n ⟨net.nodes.set i { nd with pushed := nd.r.buffer.length },
+      net.log ++ (nd.r.buffer.drop nd.pushed).map (fun o => (i, o))⟩ := by
+  obtain ⟨net0, ap, nd0, I, Ab, h0, An, hin⟩ := T.at_node hi
+  have N0 := I.node i nd0 h0
+  have K := T.node i nd hi
+  have I' := inv_pushes (nd0.r.buffer.length - nd0.pushed) net0 nd0 I h0 (by have := N0.pushed_le; omega)
+  have hdrop : eraseB (nd.r.buffer.drop nd.pushed) = nd0.r.buffer.drop nd0.pushed := by
+    rw [An.buf, An.pushed]
+    exact (filter_drop_len nh nd.r.buffer nd.pushed).symm
+  refine ⟨⟨_, ap, I', ?_⟩, ?_, ?_, ?_, ?_⟩
+  · refine ⟨?_, by simp [Ab.len], ?_⟩
+    · show net0.log ++ _ = eraseL (net.log ++ _)
+      rw [eraseL_append, eraseL_map, Ab.log, hdrop]
+    · intro j ndj hj
+      rcases getElem?_set_some hj with ⟨rfl, rfl⟩ | ⟨hne, hj'⟩
+      · refine ⟨{ nd0 with pushed := nd0.r.buffer.length }, getElem?_set_self' h0, ?_⟩
+        have A1 := An.log_append K.pulled_le ((nd.r.buffer.drop nd.pushed).map (fun o => ((j, o) : LEnt)))
+        exact {
+          st := A1.st
+          id := A1.id
+          buf := A1.buf
+          pushed := by
+            show nd0.r.buffer.length = (eraseB (nd.r.buffer.take nd.r.buffer.length)).length
+            rw [List.take_length, An.buf]
+          pulled := A1.pulled }
+      · obtain ⟨ndj0, g1, g2⟩ := Ab.node j ndj hj'
+        refine ⟨ndj0, ?_, g2.log_append (T.node j ndj hj').pulled_le _⟩
+        show (net0.nodes.set i _)[j]? = some ndj0
+        rw [List.getElem?_set_ne (fun e => hne e.symm)]
+        exact g1
+  · intro j ndj hj
+    rcases getElem?_set_some hj with ⟨rfl, rfl⟩ | ⟨hne, hj'⟩
+    · exact {
+        rb := K.rb
+        pushed_le := Nat.le_refl _
+        pulled_le := by
+          show nd.pulled ≤ (net.log ++ _).length
+          rw [List.length_append]; exact Nat.le_trans K.pulled_le (Nat.le_add_right _ _)
+        rest_units := by
+          show UnitsB (nd.r.buffer.drop nd.r.buffer.length)
+          rw [List.drop_length]; exact unitsB_nil
+        pull_units := by
+          show UnitsL ((net.log ++ _).drop nd.pulled)
+          rw [List.drop_append_of_le_length K.pulled_le]
+          exact unitsL_append K.pull_units (unitsL_of_B j K.rest_units)
+        buf_ok := K.buf_ok
+        log_own := by
+          show own j (net.log ++ _) = (nd.r.buffer.take nd.r.buffer.length).map _
+          rw [own_append, own_map_self, K.log_own, ← List.map_append, List.take_append_drop, List.take_length]
+        buf_sorted := K.buf_sorted
+        buf_lam := K.buf_lam }
+    · exact (T.node j ndj hj').log_append hne K.rest_units
+  · obtain ⟨units, h1, h2, h3⟩ := T.log_units
+    obtain ⟨us, hus, hall⟩ := K.rest_units
+    refine ⟨units ++ us.map (fun u => (i, u)), ?_, ?_, ?_⟩
+    · show net.log ++ _ = _
+      rw [flatU_append, flatU_map_author, ← hus, h1]
+    · intro au hau
+      rcases List.mem_append.mp hau with h | h
+      · exact h2 au h
+      · obtain ⟨u, hu, rfl⟩ := List.mem_map.mp h
+        exact hall u hu
+    · intro j ndj hj
+      have hk : ∃ k, ndj.pulled = (flatU (units.take k)).length := by
+        rcases getElem?_set_some hj with ⟨rfl, rfl⟩ | ⟨hne, hj'⟩
+        · exact h3 j nd hi
+        · exact h3 j ndj hj'
+      obtain ⟨k, hk⟩ := hk
+      by_cases hle : k ≤ units.length
+      · exact ⟨k, by rw [List.take_append_of_le_length hle]; exact hk⟩
+      · refine ⟨units.length, ?_⟩
+        rw [List.take_append_of_le_length (Nat.le_refl _), List.take_length, hk,
+          List.take_of_length_le (by omega)]
+  · intro e he
+    rcases List.mem_append.mp he with h | h
+    · exact T.log_ok e h
+    · obtain ⟨o, ho, rfl⟩ := List.mem_map.mp h
+      have := K.buf_ok o (List.mem_of_mem_drop ho)
+      exact ⟨hin, this.1, this.2⟩
+  · have hsplit : (nd.r.buffer.take nd.pushed ++ nd.r.buffer.drop nd.pushed).Pairwise
+        (fun o o' => o.id.lamport < o'.id.lamport) := by
+      rw [List.take_append_drop]; exact K.buf_sorted
+    obtain ⟨_, hs2, hs3⟩ := List.pairwise_append.mp hsplit
+    refine List.pairwise_append.mpr ⟨T.log_keys, ?_, ?_⟩
+    · rw [List.pairwise_map]
+      refine hs2.imp ?_
+      intro a b hab e0
+      simp only [lkey, Prod.mk.injEq] at e0
+      omega
+    · intro e he e' he'
+      obtain ⟨o, ho, rfl⟩ := List.mem_map.mp he'
+      intro e0
+      simp only [lkey, Prod.mk.injEq] at e0
+      by_cases hei : e.1 = i
+      · obtain ⟨a, oe⟩ := e
+        simp only at hei
+        subst hei
+        have : (a, oe) ∈ own a net.log := mem_own.mpr ⟨he, rfl⟩
+        rw [K.log_own] at this
+        obtain ⟨o', ho', h2⟩ := List.mem_map.mp this
+        simp only [Prod.mk.injEq, true_and] at h2
+        subst h2
+        have := hs3 o' ho' o ho
+        simp only at e0
+        omega
+      · obtain ⟨g1, g2, _⟩ := T.log_ok e he
+        have := (K.buf_ok o (List.mem_of_mem_drop ho)).1
+        rw [g2, this] at e0
+        exact hei (I.distinct e.1 i g1 hin e0.2)
+
+/-- what `receive` does with the rest of the log: every foreign unit is applied, the result is `.ok ()` -/
+theorem recv (T : TInv cuid n net) {i : Nat} {nd : Node} (hi : net.nodes[i]? = some nd) {nd0 : Node}
+    (An : AbsNode net.log nd nd0) {l : Rga} (hs : nd.r.state = .list l) :
+    ∃ R' l', nd.r.receive (pullOps net.log i nd) = (R', .ok ()) ∧
+      Le ((eraseL (net.log.drop nd.pulled)).foldl (pullF i) nd0.r) R' ∧ R'.state = .list l' := by
+  have K := T.node i nd hi
+  obtain ⟨units, hu, hall⟩ := K.pull_units
+  have hsafe : ∀ au ∈ units, IsUnit au.2 ∧ ∀ o ∈ au.2, RemoteSafe o.body := by
+    intro au hau
+    refine ⟨hall au hau, ?_⟩
+    intro o ho
+    have hm : (au.1, o) ∈ net.log := by
+      apply List.mem_of_mem_drop (i := nd.pulled)
+      rw [hu]
+      unfold flatU
+      exact List.mem_flatMap.mpr ⟨au, hau, List.mem_map.mpr ⟨o, ho, rfl⟩⟩
+    exact (T.log_ok _ hm).2.2
+  have hle : Le nd0.r nd.r := ⟨An.st, by rw [An.id], by rw [An.id], by rw [An.id]; exact Nat.le_refl _⟩
+  unfold pullOps Replica.receive
+  rw [hu]
+  exact recv_sim i units hsafe _ nd0.r nd.r l hle hs (Nat.le_refl _)
+
+/-- the whole rest of the log is consumed -/
+theorem pullAll (T : TInv cuid n net) {i : Nat} {nd : Node} (hi : net.nodes[i]? = some nd) :
+    TInv cuid n ⟨net.nodes.set i { nd with r := (nd.r.receive (pullOps net.log i nd)).1, pulled := net.log.length },
+      net.log⟩ := by
+  obtain ⟨net0, ap, nd0, I, Ab, h0, An, hin⟩ := T.at_node hi
+  have N0 := I.node i nd0 h0
+  have K := T.node i nd hi
+  have hsl : nd.r.state = .list _ := An.st ▸ N0.st
+  obtain ⟨R', l', hrecv, hle, hst'⟩ := T.recv hi An hsl
+  have hes : eraseL (net.log.drop nd.pulled) = net0.log.drop nd0.pulled := by
+    rw [Ab.log, An.pulled]
+    exact (filter_drop_len _ net.log nd.pulled).symm
+  rw [hes] at hle
+  -- the pulls of `ListNet`
+  obtain ⟨ap1, I1⟩ := inv_pulls (net0.log.drop nd0.pulled) net0 ap nd0 I h0 (by
+    intro k hk
+    rw [List.getElem_drop, List.getElem?_eq_getElem])
+  -- … then the clock is bumped to the clock of the real replica
+  have hi1 : ∀ nd1 : Node, (net0.nodes.set i nd1)[i]? = some nd1 := fun nd1 => getElem?_set_self' h0
+  obtain ⟨ap2, I2⟩ := inv_noop I1 (hi1 _)
+    (r' := { (net0.log.drop nd0.pulled).foldl (pullF i) nd0.r with opId := R'.opId })
+    ⟨rfl, rfl, hle.cu.symm, hle.era.symm, hle.lam⟩
+  simp only [List.set_set] at I2
+  have hfld := receive_fields nd.r (pullOps net.log i nd)
+  rw [hrecv] at hfld
+  obtain ⟨f1, _, f3, _⟩ := hfld
+  simp only at f1 f3
+  have er : (nd.r.receive (pullOps net.log i nd)).1 = R' := by rw [hrecv]
+  rw [er]
+  have hcu : nd.r.opId.cuid = cuid i := by rw [← An.id]; exact N0.clock_cuid
+  refine T.set_node hi (Or.inr rfl) I2 (abs_set Ab ?_) ?_
+  · exact {
+      st := hle.st
+      id := rfl
+      buf := by
+        show ((net0.log.drop nd0.pulled).foldl (pullF i) nd0.r).buffer = eraseB R'.buffer
+        rw [foldl_pullF_buffer, f1, An.buf]
+      pushed := by
+        show nd0.pushed = (eraseB (R'.buffer.take nd.pushed)).length
+        rw [f1]; exact An.pushed
+      pulled := by
+        show nd0.pulled + (net0.log.drop nd0.pulled).length = (eraseL (net.log.take net.log.length)).length
+        rw [List.take_length, ← Ab.log, List.length_drop]
+        have := N0.pulled_le
+        omega }
+  · have hp : (nd.r.receive (pullOps net.log i nd)).2.isPanic = false := by rw [hrecv]; rfl
+    have hforeign : ∀ o ∈ pullOps net.log i nd, o.id.cuid ≠ nd.r.opId.cuid := by
+      intro o ho
+      unfold pullOps at ho
+      obtain ⟨e, he, rfl⟩ := List.mem_map.mp ho
+      obtain ⟨he1, he2⟩ := mem_oth.mp he
+      obtain ⟨g1, g2, _⟩ := T.log_ok e (List.mem_of_mem_drop he1)
+      rw [g2, hcu]
+      intro e0
+      exact he2 (I.distinct e.1 i g1 hin e0)
+    have hrb := rbInv_receive nd.r _ K.rb hforeign hp
+    rw [er] at hrb
+    have hmono := lamport_mono_receive nd.r (pullOps net.log i nd)
+    rw [er] at hmono
+    exact {
+      rb := hrb
+      pushed_le := by show nd.pushed ≤ R'.buffer.length; rw [f1]; exact K.pushed_le
+      pulled_le := Nat.le_refl _
+      rest_units := by show UnitsB (R'.buffer.drop nd.pushed); rw [f1]; exact K.rest_units
+      pull_units := by
+        show UnitsL (net.log.drop net.log.length)
+        rw [List.drop_length]; exact unitsL_nil
+      buf_ok := by
+        intro o ho
+        change o ∈ R'.buffer at ho
+        rw [f1] at ho
+        exact K.buf_ok o ho
+      log_own := by
+        show own i net.log = (R'.buffer.take nd.pushed).map _
+        rw [f1]; exact K.log_own
+      buf_sorted := by show R'.buffer.Pairwise _; rw [f1]; exact K.buf_sorted
+      buf_lam := by
+        intro o ho
+        change o ∈ R'.buffer at ho
+        show _ ≤ R'.opId.lamport
+        rw [f1] at ho
+        exact Nat.le_trans (K.buf_lam o ho) hmono }
+
+theorem step (T : TInv cuid n net) {net' : Net} (h : Step net net') : TInv cuid n net' := by
+  cases h with
+  | call i nd c hi => exact T.call hi c
+  | tx i nd tag calls s f hi => exact T.tx hi tag calls s f
+  | pushAll i nd hi => exact T.pushAll hi
+  | pullAll i nd hi => exact T.pullAll hi
+
+end TInv
+
+theorem init_node {cuid : Nat → String} {n i : Nat} {nd : Node} (hi : (Net.init cuid n).nodes[i]? = some nd) :
+    nd = ⟨Replica.new .list (cuid i) false, 0, 0⟩ ∧ i < n := by
+  simp only [Net.init, List.getElem?_map] at hi
+  cases hr : (List.range n)[i]? with
+  | none => rw [hr] at hi; cases hi
+  | some k =>
+    rw [hr] at hi
+    obtain ⟨hlt, hk⟩ := List.getElem?_eq_some_iff.mp hr
+    simp only [List.getElem_range] at hk
+    subst hk
+    simp only [Option.map_some, Option.some.injEq] at hi
+    exact ⟨hi.symm, by simpa using hlt⟩
+
+theorem tinv_init {cuid : Nat → String} {n : Nat} (hc : CuidsDistinct cuid n) : TInv cuid n (Net.init cuid n) where
+  sim := by
+    refine ⟨Net.init cuid n, _, inv_init hc, rfl, rfl, ?_⟩
+    intro i nd hi
+    refine ⟨nd, hi, ?_⟩
+    obtain ⟨rfl, _⟩ := init_node hi
+    exact ⟨rfl, rfl, rfl, rfl, rfl⟩
+  node := by
+    intro i nd hi
+    obtain ⟨rfl, _⟩ := init_node hi
+    exact {
+      rb := rbInv_new _ _ _
+      pushed_le := Nat.le_refl _
+      pulled_le := Nat.le_refl _
+      rest_units := unitsB_nil
+      pull_units := unitsL_nil
+      buf_ok := by intro o ho; cases ho
+      log_own := rfl
+      buf_sorted := List.Pairwise.nil
+      buf_lam := by intro o ho; cases ho }
+  log_units := by
+    refine ⟨[], rfl, by simp, ?_⟩
+    intro i nd hi
+    obtain ⟨rfl, _⟩ := init_node hi
+    exact ⟨0, rfl⟩
+  log_ok := by intro e he; cases he
+  log_keys := List.Pairwise.nil
+
+/-- **the invariant holds in every reachable state** -/
+theorem tinv_reach {cuid : Nat → String} {n : Nat} {net : Net} (h : Reach cuid n net) : TInv cuid n net := by
+  induction h with
+  | init hc => exact tinv_init hc
+  | step _ hs ih => exact ih.step hs
+
+
+/-! ## 7. the theorems -/
+
+section theorems
+variable {cuid : Nat → String} {n : Nat} {net : Net}
+
+/-- in a reachable state a transaction (ANY body) never panics: it ends with `.ok ()` or with an error -/
+theorem ltx_tx_never_panics (h : Reach cuid n net) {i : Nat} {nd : Node} (hi : net.nodes[i]? = some nd)
+    (tag : String) (calls : List Call) (stopOnErr failAtEnd : Bool) :
+    (nd.r.txCalls tag calls stopOnErr failAtEnd).2.2 = .ok () ∨
+      ∃ c, (nd.r.txCalls tag calls stopOnErr failAtEnd).2.2 = .err c := by
+  have T := tinv_reach h
+  obtain ⟨net0, ap, nd0, I, Ab, h0, An, hin⟩ := T.at_node hi
+  obtain ⟨_, hc⟩ := tx_cases (I.node i nd0 h0) hin nd.r An.st An.id (T.node i nd hi).rb tag calls stopOnErr failAtEnd
+  rcases hc with ⟨c, hc, _⟩ | ⟨hok, _⟩
+  · exact Or.inr ⟨c, hc⟩
+  · exact Or.inl hok
+
+/-- **a failing transaction changes nothing on its node**: operation identifier, state, buffer, checkpoint are what they
+    were (whatever the body did before it failed: valid and refused calls, reads, early return, failing user function) -/
+theorem ltx_failed_tx_is_noop (h : Reach cuid n net) {i : Nat} {nd : Node} (hi : net.nodes[i]? = some nd)
+    (tag : String) (calls : List Call) (stopOnErr failAtEnd : Bool) (c : Nat)
+    (herr : (nd.r.txCalls tag calls stopOnErr failAtEnd).2.2 = .err c) :
+    let r' := (nd.r.txCalls tag calls stopOnErr failAtEnd).1
+    r'.opId = nd.r.opId ∧ r'.state = nd.r.state ∧ r'.buffer = nd.r.buffer ∧ r'.cp = nd.r.cp :=
+  txCalls_fail_restores nd.r ((tinv_reach h).node i nd hi).rb tag calls stopOnErr failAtEnd c herr
+
+/-- … stated for the system: after the `tx` step of a failing transaction the log is the same and every node has the same
+    state, operation identifier, buffer, checkpoint and counters as before -/
+theorem ltx_failed_tx_is_noop_net (h : Reach cuid n net) {i : Nat} {nd : Node} (hi : net.nodes[i]? = some nd)
+    (tag : String) (calls : List Call) (stopOnErr failAtEnd : Bool) (c : Nat)
+    (herr : (nd.r.txCalls tag calls stopOnErr failAtEnd).2.2 = .err c) {net' : Net}
+    (hnet : net' = ⟨net.nodes.set i { nd with r := (nd.r.txCalls tag calls stopOnErr failAtEnd).1 }, net.log⟩) :
+    Step net net' ∧ net'.log = net.log ∧ ∀ (j : Nat) (nd' : Node), net'.nodes[j]? = some nd' →
+      ∃ ndj, net.nodes[j]? = some ndj ∧ nd'.r.opId = ndj.r.opId ∧ nd'.r.state = ndj.r.state ∧
+        nd'.r.buffer = ndj.r.buffer ∧ nd'.r.cp = ndj.r.cp ∧ nd'.pushed = ndj.pushed ∧ nd'.pulled = ndj.pulled := by
+  subst hnet
+  refine ⟨.tx net i nd tag calls stopOnErr failAtEnd hi, rfl, ?_⟩
+  intro j nd' hj
+  rcases getElem?_set_some hj with ⟨rfl, rfl⟩ | ⟨hne, hj'⟩
+  · obtain ⟨g1, g2, g3, g4⟩ := ltx_failed_tx_is_noop h hi tag calls stopOnErr failAtEnd c herr
+    exact ⟨nd, hi, g1, g2, g3, g4, rfl, rfl⟩
+  · exact ⟨nd', hj', rfl, rfl, rfl, rfl, rfl, rfl⟩
+
+/-- **a committed transaction appends exactly ONE unit** `header :: ops` to the buffer; the header carries the first
+    identifier of the transaction and announces the unit's length; `ops` (the operations of the successful calls of the
+    body) contains no header, and every operation is safe to execute remotely and carries the node's client identifier -/
+theorem ltx_committed_tx_is_one_unit (h : Reach cuid n net) {i : Nat} {nd : Node} (hi : net.nodes[i]? = some nd)
+    (tag : String) (calls : List Call) (stopOnErr failAtEnd : Bool)
+    (hok : (nd.r.txCalls tag calls stopOnErr failAtEnd).2.2 = .ok ()) :
+    let r' := (nd.r.txCalls tag calls stopOnErr failAtEnd).1
+    ∃ ops : List Op,
+      r'.buffer = nd.r.buffer ++ (⟨nd.r.opId.next, .transaction tag ((ops.length : Int) + 1)⟩ :: ops) ∧
+      IsUnit (⟨nd.r.opId.next, .transaction tag ((ops.length : Int) + 1)⟩ :: ops) ∧
+      ∀ o ∈ ops, isHdr o = false ∧ RemoteSafe o.body ∧ o.id.cuid = cuid i ∧ nd.r.opId.lamport + 1 < o.id.lamport := by
+  intro r'
+  have T := tinv_reach h
+  obtain ⟨net0, ap, nd0, I, Ab, h0, An, hin⟩ := T.at_node hi
+  obtain ⟨_, hc⟩ := tx_cases (I.node i nd0 h0) hin nd.r An.st An.id (T.node i nd hi).rb tag calls stopOnErr failAtEnd
+  rcases hc with ⟨c, hc, _⟩ | ⟨_, ops, ar1, A1, hb, _, _, _, _, e5, _⟩
+  · rw [hok] at hc; cases hc
+  · refine ⟨ops, hb, Or.inr ⟨_, _, ops, rfl, fun o ho => (e5 o ho).1.nh⟩, ?_⟩
+    intro o ho
+    exact ⟨(e5 o ho).1.nh, (e5 o ho).1.safe, (e5 o ho).1.cu, (e5 o ho).2⟩
+
+/-- **units are contiguous in the log**, in every reachable state: the log is a concatenation of units -/
+theorem ltx_log_is_units (h : Reach cuid n net) : ∃ units : List (Nat × List Op),
+    net.log = units.flatMap (fun (a, u) => u.map (a, ·)) ∧ ∀ au ∈ units, IsUnit au.2 := by
+  obtain ⟨units, h1, h2, _⟩ := (tinv_reach h).log_units
+  exact ⟨units, h1, h2⟩
+
+/-- **`receive` never refuses and never panics in the system**: what a node hands to `receive` when it pulls is accepted -/
+theorem ltx_receive_ok (h : Reach cuid n net) {i : Nat} {nd : Node} (hi : net.nodes[i]? = some nd) :
+    (nd.r.receive (pullOps net.log i nd)).2 = .ok () := by
+  have T := tinv_reach h
+  obtain ⟨net0, ap, nd0, I, Ab, h0, An, hin⟩ := T.at_node hi
+  have hsl : nd.r.state = .list _ := An.st ▸ (I.node i nd0 h0).st
+  obtain ⟨R', l', hrecv, _⟩ := T.recv hi An hsl
+  rw [hrecv]
+
+/-- where unit `j` of a decomposition starts in the log -/
+def unitStart (units : List (Nat × List Op)) (j : Nat) : Nat := (flatU (units.take j)).length
+
+theorem unitStart_mono (units : List (Nat × List Op)) {j k : Nat} (h : j ≤ k) : unitStart units j ≤ unitStart units k := by
+  unfold unitStart
+  obtain ⟨t, ht⟩ := List.take_prefix_take_left (l := units) h
+  rw [← ht, flatU_append, List.length_append]
+  exact Nat.le_add_right _ _
+
+/-- **ALL OR NOTHING, by log position**: there is ONE decomposition of the log into units such that every node, at every
+    moment, has consumed (`p < pulled`) either ALL positions of a unit or NONE of them — `pulled` never sits inside a unit.
+    (`ltx_nodes_applied_ops` ties `pulled` to the state: the state of a node is the application of its own operations and
+    of the foreign entries among the first `pulled` ones.) -/
+theorem ltx_all_or_nothing_pos (h : Reach cuid n net) : ∃ units : List (Nat × List Op),
+    net.log = flatU units ∧ (∀ au ∈ units, IsUnit au.2) ∧
+    ∀ (i : Nat) (nd : Node), net.nodes[i]? = some nd → ∀ j, j < units.length →
+      (∀ p, unitStart units j ≤ p → p < unitStart units (j + 1) → p < nd.pulled) ∨
+      (∀ p, unitStart units j ≤ p → p < unitStart units (j + 1) → ¬ p < nd.pulled) := by
+  obtain ⟨units, h1, h2, h3⟩ := (tinv_reach h).log_units
+  refine ⟨units, h1, h2, ?_⟩
+  intro i nd hi j _
+  obtain ⟨k, hk⟩ := h3 i nd hi
+  by_cases hjk : j + 1 ≤ k
+  · left
+    intro p _ hp
+    have := unitStart_mono units hjk
+    unfold unitStart at this hp
+    omega
+  · right
+    intro p hp _
+    have := unitStart_mono units (show k ≤ j by omega)
+    unfold unitStart at this hp
+    omega
+
+/-- node `i` has applied the log entry `e` of another node: `e` is among the entries `i` has consumed -/
+def Applied (net : Net) (i : Nat) (e : LEnt) : Prop :=
+  ∃ nd, net.nodes[i]? = some nd ∧ e ∈ oth i (net.log.take nd.pulled)
+
+/-- no two entries of the log are equal (headers included) -/
+theorem ltx_log_nodup (h : Reach cuid n net) : net.log.Nodup := nodup_of_keys (tinv_reach h).log_keys
+
+/-- **ALL OR NOTHING**: in every reachable state every node has applied, of every unit of the log authored by another
+    node, either ALL operations or NONE -/
+theorem ltx_all_or_nothing (h : Reach cuid n net) : ∃ units : List (Nat × List Op),
+    net.log = units.flatMap (fun (a, u) => u.map (a, ·)) ∧ (∀ au ∈ units, IsUnit au.2) ∧
+    ∀ (i : Nat) (nd : Node), net.nodes[i]? = some nd → ∀ au ∈ units, au.1 ≠ i →
+      (∀ o ∈ au.2, Applied net i (au.1, o)) ∨ (∀ o ∈ au.2, ¬ Applied net i (au.1, o)) := by
+  have T := tinv_reach h
+  obtain ⟨units, h1, h2, h3⟩ := T.log_units
+  refine ⟨units, h1, h2, ?_⟩
+  intro i nd hi au hau hne
+  obtain ⟨k, hk⟩ := h3 i nd hi
+  have hsplit : net.log = flatU (units.take k) ++ flatU (units.drop k) := by
+    rw [← flatU_append, List.take_append_drop]; exact h1
+  have htake : net.log.take nd.pulled = flatU (units.take k) := by
+    rw [hsplit, hk, List.take_left]
+  have hdrop : net.log.drop nd.pulled = flatU (units.drop k) := by
+    rw [hsplit, hk, List.drop_left]
+  have hmem : ∀ (us : List (Nat × List Op)), au ∈ us → ∀ o ∈ au.2, (au.1, o) ∈ flatU us := by
+    intro us hus o ho
+    unfold flatU
+    exact List.mem_flatMap.mpr ⟨au, hus, List.mem_map.mpr ⟨o, ho, rfl⟩⟩
+  rw [← List.take_append_drop k units] at hau
+  rcases List.mem_append.mp hau with hin | hin
+  · left
+    intro o ho
+    exact ⟨nd, hi, mem_oth.mpr ⟨by rw [htake]; exact hmem _ hin o ho, hne⟩⟩
+  · right
+    intro o ho ⟨nd', hi', hm⟩
+    rw [hi] at hi'
+    simp only [Option.some.injEq] at hi'
+    subst hi'
+    have h1' := (mem_oth.mp hm).1
+    have h2' : (au.1, o) ∈ net.log.drop nd.pulled := by rw [hdrop]; exact hmem _ hin o ho
+    have hnd := ltx_log_nodup h
+    rw [← List.take_append_drop nd.pulled net.log] at hnd
+    exact (List.nodup_append.mp hnd).2.2 _ h1' _ h2' rfl
+
+/-! ### convergence -/
+
+theorem appliedOps_abs {net net0 : Net} (Ab : Abs net net0) {i : Nat} {nd nd0 : Node} (An : AbsNode net.log nd nd0) :
+    (appliedOps net0.log i nd0).filterMap toL = (appliedOps net.log i nd).filterMap toL := by
+  unfold appliedOps
+  have e1 : net0.log.take nd0.pulled = eraseL (net.log.take nd.pulled) := by
+    rw [Ab.log, An.pulled]
+    exact filter_take_len _ net.log nd.pulled
+  rw [e1, An.buf, oth_eraseL, eraseL_snd, ← eraseB_append, filterMap_toL_eraseB]
+
+/-- every node's state IS the remote application of a causal sequence that is a permutation of what the operations the
+    node has (own buffer, foreign entries among the first `pulled` of the log; headers denote nothing) denote -/
+theorem ltx_nodes_applied_ops (h : Reach cuid n net) : ∃ applied : Nat → List LOp,
+    ∀ (i : Nat) (nd : Node), net.nodes[i]? = some nd →
+      nd.r.state = .list (Rga.empty.applyAllL (applied i)) ∧ LCausal (applied i) ∧
+      (applied i).Perm ((appliedOps net.log i nd).filterMap toL) := by
+  obtain ⟨net0, ap, I, Ab⟩ := (tinv_reach h).sim
+  refine ⟨fun i => den (ap i), ?_⟩
+  intro i nd hi
+  obtain ⟨nd0, h0, An⟩ := Ab.node i nd hi
+  have N0 := I.node i nd0 h0
+  refine ⟨An.st ▸ N0.st, N0.lc, ?_⟩
+  rw [← appliedOps_abs Ab An]
+  exact I.den_perm h0
+
+/-- **convergence survives**: two nodes that have the same operations (`LNet.SameOps`: own buffer ++ consumed foreign log
+    entries, as multisets — headers included) hold the SAME list state -/
+theorem ltx_same_operations_same_state (h : Reach cuid n net) (i j : Nat) (hi : i < net.nodes.length)
+    (hj : j < net.nodes.length) (hsame : SameOps net i j) : net.nodes[i].r.state = net.nodes[j].r.state := by
+  obtain ⟨net0, ap, I, Ab⟩ := (tinv_reach h).sim
+  have hi' := List.getElem?_eq_getElem hi
+  have hj' := List.getElem?_eq_getElem hj
+  obtain ⟨ni, nj, hni, hnj, hperm⟩ := hsame
+  rw [hi'] at hni
+  rw [hj'] at hnj
+  simp only [Option.some.injEq] at hni hnj
+  subst hni hnj
+  obtain ⟨ni0, hi0, Ai⟩ := Ab.node i _ hi'
+  obtain ⟨nj0, hj0, Aj⟩ := Ab.node j _ hj'
+  have Ni := I.node i ni0 hi0
+  have Nj := I.node j nj0 hj0
+  have hp : (den (ap i)).Perm (den (ap j)) := by
+    refine ((I.den_perm hi0).trans ?_).trans (I.den_perm hj0).symm
+    rw [appliedOps_abs Ab Ai, appliedOps_abs Ab Aj]
+    exact hperm.filterMap toL
+  rw [← Ai.st, ← Aj.st, Ni.st, Nj.st, rga_full_converge_state _ _ hp Ni.lc Nj.lc]
+
+/-- a node that has pushed its whole buffer and consumed the whole log has exactly the operations of the log -/
+theorem appliedOps_caught_up (h : Reach cuid n net) {k : Nat} (hk : k < net.nodes.length)
+    (q1 : net.nodes[k].pushed = net.nodes[k].r.buffer.length) (q2 : net.nodes[k].pulled = net.log.length) :
+    (appliedOps net.log k net.nodes[k]).Perm (net.log.map (·.2)) := by
+  have K := (tinv_reach h).node k _ (List.getElem?_eq_getElem hk)
+  have h1 : (own k net.log ++ oth k net.log).Perm net.log := List.filter_append_perm _ _
+  have h2 := h1.map (·.2)
+  rw [K.log_own, q1, List.take_length] at h2
+  have e : appliedOps net.log k net.nodes[k] =
+      (net.nodes[k].r.buffer.map (fun o => (k, o)) ++ oth k net.log).map (·.2) := by
+    simp only [appliedOps, q2, List.take_length, List.map_append, map_snd_pair]
+  rw [e]
+  exact h2
+
+theorem sameOps_of_caught_up (h : Reach cuid n net) {i j : Nat} (hi : i < net.nodes.length) (hj : j < net.nodes.length)
+    (pi : net.nodes[i].pushed = net.nodes[i].r.buffer.length) (li : net.nodes[i].pulled = net.log.length)
+    (pj : net.nodes[j].pushed = net.nodes[j].r.buffer.length) (lj : net.nodes[j].pulled = net.log.length) :
+    SameOps net i j :=
+  ⟨_, _, List.getElem?_eq_getElem hi, List.getElem?_eq_getElem hj,
+    (appliedOps_caught_up h hi pi li).trans (appliedOps_caught_up h hj pj lj).symm⟩
+
+theorem sameOps_of_quiescent (h : Reach cuid n net) (hq : Quiescent net) {i j : Nat} (hi : i < net.nodes.length)
+    (hj : j < net.nodes.length) : SameOps net i j := by
+  obtain ⟨a1, a2⟩ := hq _ (List.getElem_mem hi)
+  obtain ⟨b1, b2⟩ := hq _ (List.getElem_mem hj)
+  exact sameOps_of_caught_up h hi hj a1 a2 b1 b2
+
+/-- at quiescence (`LNet.Quiescent`: every buffer completely pushed, every node has consumed the whole log) all nodes
+    hold the same list state -/
+theorem ltx_quiescent_converged (h : Reach cuid n net) (hq : Quiescent net) (i j : Nat) (hi : i < net.nodes.length)
+    (hj : j < net.nodes.length) : net.nodes[i].r.state = net.nodes[j].r.state :=
+  ltx_same_operations_same_state h i j hi hj (sameOps_of_quiescent h hq hi hj)
+
+end theorems
+
+/-! ## 8. non-vacuity: three nodes, transactions (committed, failing, empty), concurrent plain calls, a run to quiescence
+
+Node 0 inserts `[1, 2]` (plain call), pushes; everybody pulls.  Then, CONCURRENTLY:
+  * node 1 commits the transaction `"t1"` whose body inserts `"b"` at 1, deletes element 0, reads, updates element 0 — a unit
+    of FOUR log entries (header + three operations; the read queues nothing);
+  * node 2 runs `"t2"` (insert, then an insert out of range; the body stops at the refused call): rolled back;
+  * node 2 runs `"t3"` (insert, delete; the user function fails at the end): rolled back;
+  * node 0 commits the EMPTY transaction `"t4"`: a unit that is a lone header announcing 1;
+  * node 2 inserts `"c"` at 1 and node 0 deletes element 1 (plain calls).
+Everybody pushes (2, 1, 0); node 0 pulls (`midNet`: NOT quiescent — node 0 has applied ALL of `"t1"`, nodes 1 and 2 are
+behind); then 1 and 2 pull (`finalNet`: quiescent). -/
+namespace Ex
+
+def cu : Nat → String
+  | 0 => "a" | 1 => "b" | _ => "c"
+
+def acts : List Act := [
+  .call 0 (.linsert 0 [.num 1, .num 2]),
+  .pushAll 0, .pullAll 0, .pullAll 1, .pullAll 2,
+  .tx 1 "t1" [.linsert 1 [.str "b"], .ldelete 0, .lget 0, .lupdate 0 [.str "u"]] false false,
+  .tx 2 "t2" [.linsert 1 [.str "x"], .linsert 7 [.str "y"]] true false,
+  .tx 2 "t3" [.linsert 1 [.str "z"], .ldelete 0] false true,
+  .tx 0 "t4" [] false false,
+  .call 2 (.linsert 1 [.str "c"]),
+  .call 0 (.ldelete 1),
+  .pushAll 2, .pushAll 1, .pushAll 0,
+  .pullAll 0, .pullAll 1, .pullAll 2]
+
+def finalNet : Net := (run (Net.init cu 3) acts).getD ⟨[], []⟩
+def midNet : Net := (run (Net.init cu 3) (acts.take 15)).getD ⟨[], []⟩
+
+theorem run_final : run (Net.init cu 3) acts = some finalNet := by
+  have h : (run (Net.init cu 3) acts).isSome = true := by decide
+  unfold finalNet
+  cases hr : run (Net.init cu 3) acts with
+  | none => rw [hr] at h; cases h
+  | some x => rfl
+
+theorem run_mid : run (Net.init cu 3) (acts.take 15) = some midNet := by
+  have h : (run (Net.init cu 3) (acts.take 15)).isSome = true := by decide
+  unfold midNet
+  cases hr : run (Net.init cu 3) (acts.take 15) with
+  | none => rw [hr] at h; cases h
+  | some x => rfl
+
+theorem cu_distinct : CuidsDistinct cu 3 := by
+  intro i j hi hj h
+  have h1 : i = 0 ∨ i = 1 ∨ i = 2 := by omega
+  have h2 : j = 0 ∨ j = 1 ∨ j = 2 := by omega
+  rcases h1 with rfl | rfl | rfl <;> rcases h2 with rfl | rfl | rfl <;> first | rfl | (exact absurd h (by decide))
+
+theorem reach_final : Reach cu 3 finalNet := reach_run acts (.init cu_distinct) run_final
+theorem reach_mid : Reach cu 3 midNet := reach_run (acts.take 15) (.init cu_distinct) run_mid
+
+theorem quiescent_final : Quiescent finalNet := by
+  unfold Quiescent
+  decide
+
+theorem len_final : finalNet.nodes.length = 3 := by decide
+theorem len_mid : midNet.nodes.length = 3 := by decide
+
+/-- eight entries went through the log: the plain insert, node 2's plain insert, the unit of `"t1"` (header announcing 4 and
+    three operations), the lone header of `"t4"`, node 0's plain delete; the two failed transactions left nothing -/
+example : finalNet.log.map (·.1) = [0, 2, 1, 1, 1, 1, 0, 0] ∧
+    finalNet.log.map (fun e => isHdr e.2) = [false, false, true, false, false, false, true, false] := by decide
+
+/-- the failing transactions returned an error and changed neither state nor buffer (here: `"t2"` on the replica of node 2
+    as it stood after the first round) -/
+example : ∃ nd, (((run (Net.init cu 3) (acts.take 6)).getD ⟨[], []⟩).nodes[2]? = some nd) ∧
+    (nd.r.txCalls "t2" [.linsert 1 [.str "x"], .linsert 7 [.str "y"]] true false).2.2 = .err Err.transaction ∧
+    (nd.r.txCalls "t2" [.linsert 1 [.str "x"], .linsert 7 [.str "y"]] true false).1.buffer = nd.r.buffer := by
+  refine ⟨_, rfl, ?_, ?_⟩ <;> rfl
+
+/-- `ltx_quiescent_converged` instantiated -/
+example : (finalNet.nodes[0]'(by rw [len_final]; decide)).r.state = (finalNet.nodes[1]'(by rw [len_final]; decide)).r.state :=
+  ltx_quiescent_converged reach_final quiescent_final 0 1 (by decide) (by decide)
+example : (finalNet.nodes[1]'(by rw [len_final]; decide)).r.state = (finalNet.nodes[2]'(by rw [len_final]; decide)).r.state :=
+  ltx_quiescent_converged reach_final quiescent_final 1 2 (by decide) (by decide)
+
+def a0 : Ts := ⟨0, 1, "a", 0⟩
+def a1 : Ts := ⟨0, 1, "a", 1⟩
+
+/-- … and the common state -/
+def common : DState := .list
+  ⟨[⟨a0, none, ⟨0, 4, "b", 0⟩⟩, ⟨⟨0, 3, "b", 0⟩, some (.str "u"), ⟨0, 5, "b", 0⟩⟩,
+    ⟨⟨0, 2, "c", 0⟩, some (.str "c"), ⟨0, 2, "c", 0⟩⟩, ⟨a1, none, ⟨0, 3, "a", 0⟩⟩], 2⟩
+
+-- COMMON
+
+/-- `ltx_all_or_nothing` instantiated in the NON-quiescent state `midNet`, and both alternatives occur there for the unit
+    of `"t1"` (log positions 2–5, written by node 1): node 0 has consumed all of it, node 2 none of it -/
+example : ∃ units : List (Nat × List Op), midNet.log = units.flatMap (fun (a, u) => u.map (a, ·)) ∧
+    (∀ au ∈ units, IsUnit au.2) ∧
+    ∀ (i : Nat) (nd : Node), midNet.nodes[i]? = some nd → ∀ au ∈ units, au.1 ≠ i →
+      (∀ o ∈ au.2, Applied midNet i (au.1, o)) ∨ (∀ o ∈ au.2, ¬ Applied midNet i (au.1, o)) :=
+  ltx_all_or_nothing reach_mid
+
+example : ¬ Quiescent midNet := by
+  unfold Quiescent
+  decide
+
+example : (midNet.nodes.map (·.pulled)) = [8, 1, 1] ∧ midNet.log.length = 8 := by decide
+
+/-- `receive` accepted what node 2 is about to pull in `midNet` (seven entries, among them the unit of four) -/
+example : ∃ nd, midNet.nodes[2]? = some nd ∧ (nd.r.receive (pullOps midNet.log 2 nd)).2 = .ok () :=
+  ⟨_, rfl, ltx_receive_ok reach_mid rfl⟩
+
+end Ex
+
 end Orda.LTx
